@@ -16,6 +16,8 @@ Helper lemmas first (namespace `HedVerif.Dup`), the property theorems in `namesp
 import HedVerif.Model.Dup
 import HedVerif.Props.C02
 import HedVerif.Props.C03
+import HedVerif.Props.C01
+import HedVerif.Model.Rewrite
 namespace HedVerif.Dup
 
 theorem strLt_irrefl (a : Str) : strLt a a = false := by
@@ -974,5 +976,3168 @@ example : issues [.grp [red, blue], .grp [green], .grp [blue, red]] = [⟨.grp, 
 
 example : NoRepeat (.tag ⟨['a'], ['a'], ['a']⟩) := by
   intro cs h; cases h
+
+end HedVerif.C04
+
+/-! ## Growth: the whole validator (`Model/Validate.lean`)
+
+Part 1 — the tokenizer and the tree builder see a text as a sequence of events (tag text, open, close);
+blanks next to delimiters do not change it (`evs_blank_*`, `construct_ev`).
+Part 2 — every rule of the validator, on resolved trees related by `ForestSim` (same shape, tags the rules
+cannot tell apart, members of every group permuted, spans free): `validateP_sim`.
+Part 3 — the theorems of C04 for the whole validator.
+-/
+namespace HedVerif.Rewrite
+open HedVerif Tok Tree
+
+/-! ### what the tree builder reads of the tokens: a sequence of events -/
+
+inductive Ev where
+  | tag (w : Str)
+  | opn
+  | cls
+deriving Repr, DecidableEq
+
+/-- which parenthesis, if any, a delimiter token stands for: its first character that is not white space -/
+def clsOf (u : Str) : Option Ev :=
+  match u.find? (fun c => !pyIsSpace c) with
+  | some '(' => some .opn
+  | some ')' => some .cls
+  | _ => none
+
+def tokEv (s : Str) (t : Token) : Option Ev :=
+  if t.isTag then some (.tag (slice s t.start t.stop)) else clsOf (slice s t.start t.stop)
+
+def evs (s : Str) (toks : List Token) : List Ev := toks.filterMap (tokEv s)
+
+/-- `split_into_groups` on events, building the abstract forest -/
+def stepEv (top : List ATree) (stack : List (List ATree)) : Ev → Except BuildErr (List ATree × List (List ATree))
+  | .tag w =>
+    match stack with
+    | [] => .ok (.tag w :: top, [])
+    | f :: fs => .ok (top, (.tag w :: f) :: fs)
+  | .opn => .ok (top, [] :: stack)
+  | .cls =>
+    match stack with
+    | [] => .error .closing
+    | f :: fs =>
+      match fs with
+      | [] => .ok (.group f.reverse :: top, [])
+      | f2 :: fs2 => .ok (top, (.group f.reverse :: f2) :: fs2)
+
+def buildEv : List ATree → List (List ATree) → List Ev → Except BuildErr (List ATree)
+  | top, [], [] => .ok top.reverse
+  | _, _ :: _, [] => .error .unmatched
+  | top, stack, e :: es =>
+    match stepEv top stack e with
+    | .error x => .error x
+    | .ok (top', stack') => buildEv top' stack' es
+
+def absStack (s : Str) (stack : List Frame) : List (List ATree) := stack.map fun f => absList s f.kids
+
+theorem absList_reverse (s : Str) (l : List Node) : absList s l.reverse = (absList s l).reverse := by
+  simp [absList, formList_map_aux]
+where
+  formList_map_aux : ∀ (form : Nat → Nat → Str) (l : List Node), formList form l = l.map (formNode form) := by
+    intro form l
+    induction l with
+    | nil => rfl
+    | cons k ks ih => simp [formList, ih]
+
+theorem clsOf_of_first (u : Str) (hne : u ≠ []) :
+    ∃ ch, u[delimIndex u]? = some ch ∧
+      (clsOf u = if ch == '(' then some .opn else if ch == ')' then some .cls else none) := by
+  unfold delimIndex clsOf
+  cases hf : u.findIdx? (fun c => !pyIsSpace c) with
+  | none =>
+    have hall : ∀ c ∈ u, pyIsSpace c = true := by
+      rw [List.findIdx?_eq_none_iff] at hf
+      intro c hc; simpa using hf c hc
+    have hfind : u.find? (fun c => !pyIsSpace c) = none := by
+      rw [List.find?_eq_none]; intro c hc; simp [hall c hc]
+    cases u with
+    | nil => exact absurd rfl hne
+    | cons c cs =>
+      refine ⟨c, by simp, ?_⟩
+      have hc := hall c (by simp)
+      rw [hfind]
+      have h1 : (c == '(') = false := by
+        cases h : c == '(' with
+        | false => rfl
+        | true => rw [beq_iff_eq] at h; subst h; simp [pyIsSpace] at hc
+      have h2 : (c == ')') = false := by
+        cases h : c == ')' with
+        | false => rfl
+        | true => rw [beq_iff_eq] at h; subst h; simp [pyIsSpace] at hc
+      simp [h1, h2]
+  | some k =>
+    obtain ⟨hk, hp⟩ : ∃ hk : k < u.length, (!pyIsSpace u[k]) = true := by
+      have := List.findIdx?_eq_some_iff_getElem.mp hf
+      exact ⟨this.1, this.2.1⟩
+    have hfind : u.find? (fun c => !pyIsSpace c) = some u[k] := by
+      rw [List.find?_eq_some_iff_getElem]
+      have := List.findIdx?_eq_some_iff_getElem.mp hf
+      exact ⟨hp, k, hk, rfl, fun j hj => by simpa using this.2.2 j hj⟩
+    refine ⟨u[k], by simp [hk], ?_⟩
+    rw [hfind]
+    by_cases h1 : u[k] = '('
+    · simp [h1]
+    · by_cases h2 : u[k] = ')'
+      · simp [h2]
+      · simp [h1, h2]
+
+
+theorem stepTok_ev (s : Str) (top : List Node) (stack : List Frame) (t : Token)
+    (ht : t.start < t.stop) (hs : t.stop ≤ s.length) :
+    (match stepTok s top stack t with
+      | .ok (top', stack') => Except.ok (absList s top', absStack s stack')
+      | .error e => .error e) =
+    (match tokEv s t with
+      | some e => stepEv (absList s top) (absStack s stack) e
+      | none => .ok (absList s top, absStack s stack)) := by
+  unfold stepTok tokEv
+  by_cases htag : t.isTag = true
+  · simp only [htag, ↓reduceIte]
+    cases stack with
+    | nil => simp [stepEv, absStack, absList, formList, formNode]
+    | cons f fs => simp [stepEv, absStack, absList, formList, formNode]
+  · have htag' : t.isTag = false := by simpa using htag
+    simp only [htag', Bool.false_eq_true, ↓reduceIte]
+    have hne : slice s t.start t.stop ≠ [] := by
+      intro h
+      have := congrArg List.length h
+      rw [slice_length s _ _ hs] at this
+      simp at this; omega
+    obtain ⟨ch, hch, hcls⟩ := clsOf_of_first _ hne
+    have hch' : ((s.drop t.start).take (t.stop - t.start))[delimIndex ((s.drop t.start).take (t.stop - t.start))]? = some ch := hch
+    simp only [hch']
+    rw [show clsOf (slice s t.start t.stop) = _ from hcls]
+    by_cases h1 : ch = '('
+    · subst h1
+      simp [stepEv, absStack, absList, formList]
+    · have h1' : (ch == '(') = false := by simpa using h1
+      by_cases h2 : ch = ')'
+      · subst h2
+        simp only [h1', Bool.false_eq_true, ↓reduceIte, beq_self_eq_true]
+        cases stack with
+        | nil => simp [stepEv, absStack]
+        | cons f fs =>
+          cases fs with
+          | nil => simp [stepEv, absStack, absList, formList, formNode, absList_reverse]
+          | cons f2 fs2 => simp [stepEv, absStack, absList, formList, formNode, absList_reverse]
+      · have h2' : (ch == ')') = false := by simpa using h2
+        simp [h1', h2']
+
+theorem buildToks_ev (s : Str) : ∀ (toks : List Token) (top : List Node) (stack : List Frame),
+    (∀ t ∈ toks, t.start < t.stop ∧ t.stop ≤ s.length) →
+    (match buildToks s top stack toks with
+      | .ok r => Except.ok (absList s r)
+      | .error e => .error e) = buildEv (absList s top) (absStack s stack) (evs s toks)
+  | [], top, stack, _ => by
+    cases stack with
+    | nil => simp [buildToks, buildEv, evs, absStack, absList_reverse]
+    | cons f fs => simp [buildToks, buildEv, evs, absStack]
+  | t :: ts, top, stack, h => by
+    have hst := stepTok_ev s top stack t (h t (by simp)).1 (h t (by simp)).2
+    have ih := fun top' stack' => buildToks_ev s ts top' stack' (fun x hx => h x (by simp [hx]))
+    simp only [buildToks, evs, List.filterMap_cons]
+    cases hstep : stepTok s top stack t with
+    | error e =>
+      rw [hstep] at hst
+      cases hev : tokEv s t with
+      | none => rw [hev] at hst; simp at hst
+      | some e' =>
+        rw [hev] at hst
+        simp only at hst
+        simp only [buildEv]
+        rw [← hst]
+    | ok r =>
+      obtain ⟨top', stack'⟩ := r
+      rw [hstep] at hst
+      simp only
+      cases hev : tokEv s t with
+      | none =>
+        rw [hev] at hst
+        simp only [Except.ok.injEq, Prod.mk.injEq] at hst
+        rw [ih top' stack', hst.1, hst.2]
+        rfl
+      | some e' =>
+        rw [hev] at hst
+        simp only at hst
+        simp only [buildEv]
+        rw [← hst]
+        exact ih top' stack'
+
+/-- **The tree is a function of the events.** -/
+theorem construct_ev (s : Str) :
+    absList s (construct s) = (match buildEv [] [] (evs s (split s)) with | .ok r => r | .error _ => []) := by
+  have hok : ∀ t ∈ split s, t.start < t.stop ∧ t.stop ≤ s.length := by
+    intro t ht
+    have := (C02.tiling s).2 t ht
+    exact ⟨this.1, this.2.1⟩
+  have := buildToks_ev s (split s) [] [] hok
+  simp only [absList, formList, absStack, List.map_nil] at this
+  unfold construct build
+  rw [← this]
+  cases buildToks s [] [] (split s) <;> simp [absList, formList]
+
+
+/-! ### the tokenizer and blanks: a simulation -/
+
+def nbs (u : Str) : Str := u.filter (fun c => c != ' ')
+
+theorem clsOf_nbs (u : Str) : clsOf (nbs u) = clsOf u := by
+  have : (nbs u).find? (fun c => !pyIsSpace c) = u.find? (fun c => !pyIsSpace c) := by
+    induction u with
+    | nil => rfl
+    | cons c cs ih =>
+      by_cases hc : c = ' '
+      · subst hc; simpa [nbs, pyIsSpace] using ih
+      · have : (c != ' ') = true := by simpa using hc
+        simp only [nbs, List.filter_cons, this, ↓reduceIte, List.find?_cons] at ih ⊢
+        split
+        · rfl
+        · exact ih
+  simp [clsOf, this]
+
+theorem clsOf_congr {u v : Str} (h : nbs u = nbs v) : clsOf u = clsOf v := by
+  rw [← clsOf_nbs u, ← clsOf_nbs v, h]
+
+theorem clsOf_nil_of_nbs {u : Str} (h : nbs u = []) : clsOf u = none := by
+  rw [← clsOf_nbs u, h]; rfl
+
+theorem nbs_append (u v : Str) : nbs (u ++ v) = nbs u ++ nbs v := by simp [nbs]
+
+theorem slice_self (s : Str) (a : Nat) : slice s a a = [] := by simp [slice]
+
+theorem slice_snoc (s : Str) (a i : Nat) (c : Char) (h : s[i]? = some c) (ha : a ≤ i) :
+    slice s a (i + 1) = slice s a i ++ [c] := by
+  rw [slice_split s a i (i + 1) ha (by omega)]
+  congr 1
+  unfold slice
+  rw [show i + 1 - i = 1 by omega]
+  exact portion_single s i c h
+
+theorem evs_cons (s : Str) (t : Token) (l : List Token) : evs s (t :: l) = (tokEv s t).toList ++ evs s l := by
+  simp only [evs, List.filterMap_cons]
+  cases tokEv s t <;> rfl
+
+/-- the two runs, after `i` characters of `s` and `i'` of `s'`, have seen the same events and hold the same
+pending material (the same pending tag text, or delimiter runs equal up to blanks) -/
+structure Sim (s s' : Str) (st st' : St) (i i' : Nat) : Prop where
+  bi : i ≤ s.length
+  bi' : i' ≤ s'.length
+  found : st.found = st'.found
+  ev : evs s st.out = evs s' st'.out
+  fm : st.found = true → st.tagStart = none ∧ st'.tagStart = none ∧
+    ∃ le le', st.lastEnd = some le ∧ st'.lastEnd = some le' ∧ le ≤ i ∧ le' ≤ i' ∧
+      nbs (slice s le i) = nbs (slice s' le' i')
+  tm : st.found = false → st.lastEnd = none ∧ st'.lastEnd = none ∧ st.spacing = st'.spacing ∧
+    ∃ ts ts', st.tagStart = some ts ∧ st'.tagStart = some ts' ∧ ts ≤ i ∧ ts' ≤ i' ∧
+      slice s ts i = slice s' ts' i' ∧ (∀ c ∈ (slice s ts i).drop (i - ts - st.spacing), c = ' ') ∧
+      st.spacing ≤ i - ts
+
+theorem sim_init (s s' : Str) : Sim s s' {} {} 0 0 :=
+  ⟨by simp, by simp, rfl, rfl, fun _ => ⟨rfl, rfl, 0, 0, rfl, rfl, Nat.le_refl _, Nat.le_refl _, by simp [slice_self]⟩,
+    fun h => by simp at h⟩
+
+/-- the event of the pending delimiter run when it is closed at `i` (nothing when it is empty) -/
+theorem pending_ev (s : Str) (le i : Nat) (out : List Token) :
+    evs s (if (le != i) = true then ⟨false, le, i⟩ :: out else out) = (clsOf (slice s le i)).toList ++ evs s out := by
+  by_cases h : le = i
+  · subst h
+    simp [slice_self, clsOf]
+  · have : (le != i) = true := by simpa using h
+    simp only [this, ↓reduceIte, evs_cons, tokEv, Bool.false_eq_true]
+
+
+theorem slice_take (s : Str) (a b i : Nat) (hb : b ≤ i) : slice s a b = (slice s a i).take (b - a) := by
+  unfold slice
+  rw [List.take_take]
+  congr 1
+  omega
+
+theorem slice_drop (s : Str) (a m i : Nat) (ha : a ≤ m) (hm : m ≤ i) : slice s m i = (slice s a i).drop (m - a) := by
+  have h := slice_split s a m i ha hm
+  by_cases hms : m ≤ s.length
+  · have hl2 := slice_length s a m hms
+    rw [h, List.drop_append, hl2, List.drop_eq_nil_of_le (by omega)]
+    simp
+  · have hms' : s.length ≤ m := by omega
+    have e1 : slice s m i = [] := by simp [slice, List.drop_eq_nil_of_le hms']
+    have e2 : (slice s a i).drop (m - a) = [] := by
+      apply List.drop_eq_nil_of_le
+      simp only [slice, List.length_take, List.length_drop]
+      omega
+    rw [e1, e2]
+
+theorem lt_of_getElem? {s : Str} {i : Nat} {c : Char} (h : s[i]? = some c) : i < s.length :=
+  (List.getElem?_eq_some_iff.mp h).1
+
+theorem mem_drop_snoc {u : Str} {x c : Char} {k : Nat} (h : c ∈ (u ++ [x]).drop k) : c ∈ u.drop k ∨ c = x := by
+  rw [List.drop_append] at h
+  rcases List.mem_append.mp h with h | h
+  · exact Or.inl h
+  · exact Or.inr (by have := List.mem_of_mem_drop h; simpa using this)
+
+theorem sim_step {s s' : Str} {st st' : St} {i i' : Nat} (h : Sim s s' st st' i i') (c : Char)
+    (hc : s[i]? = some c) (hc' : s'[i']? = some c) :
+    Sim s s' (step st i c) (step st' i' c) (i + 1) (i' + 1) := by
+  have hi := lt_of_getElem? hc
+  have hi' := lt_of_getElem? hc'
+  obtain ⟨bi, bi', hf, hev, hfm, htm⟩ := h
+  by_cases hblank : c = ' '
+  · -- a blank
+    subst hblank
+    have e1 : step st i ' ' = { st with spacing := st.spacing + 1 } := by simp [step]
+    have e2 : step st' i' ' ' = { st' with spacing := st'.spacing + 1 } := by simp [step]
+    rw [e1, e2]
+    refine ⟨by omega, by omega, hf, hev, ?_, ?_⟩
+    · intro hfd
+      obtain ⟨a1, a2, le, le', b1, b2, b3, b4, b5⟩ := hfm hfd
+      refine ⟨a1, a2, le, le', b1, b2, by omega, by omega, ?_⟩
+      rw [slice_snoc s le i ' ' hc b3, slice_snoc s' le' i' ' ' hc' b4, nbs_append, nbs_append, b5]
+    · intro hfd
+      obtain ⟨a1, a2, a3, ts, ts', b1, b2, b3, b4, b5, b6, b7⟩ := htm hfd
+      refine ⟨a1, a2, by simp [a3], ts, ts', b1, b2, by omega, by omega, ?_, ?_, by simp; omega⟩
+      · rw [slice_snoc s ts i ' ' hc b3, slice_snoc s' ts' i' ' ' hc' b4, b5]
+      · intro x hx
+        rw [slice_snoc s ts i ' ' hc b3] at hx
+        have hk : i + 1 - ts - (st.spacing + 1) = i - ts - st.spacing := by omega
+        simp only [hk] at hx
+        rcases mem_drop_snoc hx with hx | hx
+        · exact b6 x hx
+        · exact hx
+  · have hb : (c == ' ') = false := by simpa using hblank
+    by_cases hd : isDelim c = true
+    · -- a delimiter
+      by_cases hfd : st.found = true
+      · have hfd' : st'.found = true := hf ▸ hfd
+        obtain ⟨a1, a2, le, le', b1, b2, b3, b4, b5⟩ := hfm hfd
+        have e1 : step st i c = { st with out := (if (le != i) = true then Token.mk false le i :: st.out else st.out), lastEnd := some i } := by
+          simp only [step, hb, Bool.false_eq_true, ↓reduceIte, hd, hfd, b1]
+          split <;> rfl
+        have e2 : step st' i' c = { st' with out := (if (le' != i') = true then Token.mk false le' i' :: st'.out else st'.out), lastEnd := some i' } := by
+          simp only [step, hb, Bool.false_eq_true, ↓reduceIte, hd, hfd', b2]
+          split <;> rfl
+        rw [e1, e2]
+        refine ⟨by omega, by omega, hf, ?_, ?_, ?_⟩
+        · simp only [pending_ev, hev, clsOf_congr b5]
+        · intro _
+          refine ⟨a1, a2, i, i', rfl, rfl, by omega, by omega, ?_⟩
+          rw [slice_snoc s i i c hc (Nat.le_refl _), slice_snoc s' i' i' c hc' (Nat.le_refl _), slice_self, slice_self]
+        · intro hx; simp [hfd] at hx
+      · have hfd0 : st.found = false := by simpa using hfd
+        have hfd' : st'.found = false := hf ▸ hfd0
+        obtain ⟨a1, a2, a3, ts, ts', b1, b2, b3, b4, b5, b6, hs⟩ := htm hfd0
+        have hL : i - ts = i' - ts' := by
+          have := congrArg List.length b5
+          rwa [slice_length s ts i bi, slice_length s' ts' i' bi'] at this
+        have e1 : step st i c = { st with found := true, lastEnd := some (i - st.spacing), out := Token.mk true ts (i - st.spacing) :: st.out, spacing := 0, tagStart := none } := by
+          simp [step, hb, hd, hfd0, b1]
+        have e2 : step st' i' c = { st' with found := true, lastEnd := some (i' - st'.spacing), out := Token.mk true ts' (i' - st'.spacing) :: st'.out, spacing := 0, tagStart := none } := by
+          simp [step, hb, hd, hfd', b2]
+        rw [e1, e2]
+        refine ⟨by omega, by omega, rfl, ?_, ?_, ?_⟩
+        · simp only [evs_cons, tokEv, ↓reduceIte, hev]
+          rw [slice_take s ts (i - st.spacing) i (by omega), slice_take s' ts' (i' - st'.spacing) i' (by omega), b5, ← a3]
+          have : i - st.spacing - ts = i' - st.spacing - ts' := by omega
+          rw [this]
+        · intro _
+          refine ⟨rfl, rfl, i - st.spacing, i' - st'.spacing, rfl, rfl, by omega, by omega, ?_⟩
+          rw [slice_snoc s _ i c hc (by omega), slice_snoc s' _ i' c hc' (by omega),
+            slice_drop s ts (i - st.spacing) i (by omega) (by omega),
+            slice_drop s' ts' (i' - st'.spacing) i' (by omega) (by omega), b5, ← a3]
+          have : i - st.spacing - ts = i' - st.spacing - ts' := by omega
+          rw [this]
+        · intro hx; simp at hx
+    · -- a tag character
+      have hd' : isDelim c = false := by simpa using hd
+      by_cases hfd : st.found = true
+      · have hfd' : st'.found = true := hf ▸ hfd
+        obtain ⟨a1, a2, le, le', b1, b2, b3, b4, b5⟩ := hfm hfd
+        have e1 : step st i c = { st with out := (if (le != i) = true then Token.mk false le i :: st.out else st.out), lastEnd := none, found := false, spacing := 0, tagStart := some i } := by
+          simp only [step, hb, Bool.false_eq_true, ↓reduceIte, hd', hfd, b1]
+          split <;> simp [a1]
+        have e2 : step st' i' c = { st' with out := (if (le' != i') = true then Token.mk false le' i' :: st'.out else st'.out), lastEnd := none, found := false, spacing := 0, tagStart := some i' } := by
+          simp only [step, hb, Bool.false_eq_true, ↓reduceIte, hd', hfd', b2]
+          split <;> simp [a2]
+        rw [e1, e2]
+        refine ⟨by omega, by omega, rfl, ?_, ?_, ?_⟩
+        · simp only [pending_ev, hev, clsOf_congr b5]
+        · intro hx; simp at hx
+        · intro _
+          refine ⟨rfl, rfl, rfl, i, i', rfl, rfl, by omega, by omega, ?_, ?_, by simp⟩
+          · rw [slice_snoc s i i c hc (Nat.le_refl _), slice_snoc s' i' i' c hc' (Nat.le_refl _), slice_self, slice_self]
+          · intro x hx
+            rw [slice_snoc s i i c hc (Nat.le_refl _), slice_self] at hx
+            simp at hx
+      · have hfd0 : st.found = false := by simpa using hfd
+        have hfd' : st'.found = false := hf ▸ hfd0
+        obtain ⟨a1, a2, a3, ts, ts', b1, b2, b3, b4, b5, b6, _⟩ := htm hfd0
+        have e1 : step st i c = { st with found := false, spacing := 0, tagStart := some ts } := by
+          simp [step, hb, hd', hfd0, b1]
+        have e2 : step st' i' c = { st' with found := false, spacing := 0, tagStart := some ts' } := by
+          simp [step, hb, hd', hfd', b2]
+        rw [e1, e2]
+        refine ⟨by omega, by omega, rfl, hev, ?_, ?_⟩
+        · intro hx; simp at hx
+        · intro _
+          refine ⟨a1, a2, rfl, ts, ts', rfl, rfl, by omega, by omega, ?_, ?_, by simp⟩
+          · rw [slice_snoc s ts i c hc b3, slice_snoc s' ts' i' c hc' b4, b5]
+          · intro x hx
+            have hlen : (slice s ts (i + 1)).length = i + 1 - ts := slice_length s ts (i + 1) (by omega)
+            have : (slice s ts (i + 1)).drop (i + 1 - ts - 0) = [] := by
+              apply List.drop_eq_nil_of_le; omega
+            rw [this] at hx; simp at hx
+
+
+theorem sim_run {s s' : Str} : ∀ (cs : Str) {st st' : St} {i i' : Nat}, Sim s s' st st' i i' → At s i cs → At s' i' cs →
+    Sim s s' (run st i cs) (run st' i' cs) (i + cs.length) (i' + cs.length)
+  | [], _, _, _, _, h, _, _ => by simpa [run] using h
+  | c :: cs, st, st', i, i', h, ha, ha' => by
+    rw [at_cons] at ha ha'
+    have := sim_run cs (sim_step h c ha.1 ha'.1) ha.2 ha'.2
+    simp only [run, List.length_cons]
+    rwa [show i + (cs.length + 1) = i + 1 + cs.length by omega, show i' + (cs.length + 1) = i' + 1 + cs.length by omega]
+
+/-- a blank read by the second run only, between tokens -/
+theorem sim_blank_right {s s' : Str} {st st' : St} {i i' : Nat} (h : Sim s s' st st' i i') (hfd : st.found = true)
+    (hc' : s'[i']? = some ' ') : Sim s s' st (step st' i' ' ') i (i' + 1) := by
+  have hi' := lt_of_getElem? hc'
+  obtain ⟨bi, bi', hf, hev, hfm, htm⟩ := h
+  have e2 : step st' i' ' ' = { st' with spacing := st'.spacing + 1 } := by simp [step]
+  rw [e2]
+  refine ⟨bi, by omega, hf, hev, ?_, ?_⟩
+  · intro _
+    obtain ⟨a1, a2, le, le', b1, b2, b3, b4, b5⟩ := hfm hfd
+    refine ⟨a1, a2, le, le', b1, b2, b3, by omega, ?_⟩
+    rw [slice_snoc s' le' i' ' ' hc' b4, nbs_append, b5]
+    simp [nbs]
+  · intro hx; simp [hfd] at hx
+
+/-- a blank read by the second run only, at the end of a tag, then the delimiter read by both -/
+theorem sim_blank_delim {s s' : Str} {st st' : St} {i i' : Nat} (h : Sim s s' st st' i i') (d : Char)
+    (hd : isDelim d = true) (hc : s[i]? = some d) (hb' : s'[i']? = some ' ') (hc' : s'[i' + 1]? = some d) :
+    Sim s s' (step st i d) (step (step st' i' ' ') (i' + 1) d) (i + 1) (i' + 1 + 1) := by
+  by_cases hfd : st.found = true
+  · exact sim_step (sim_blank_right h hfd hb') d hc hc'
+  · have hfd0 : st.found = false := by simpa using hfd
+    have hi := lt_of_getElem? hc
+    have hi' := lt_of_getElem? hc'
+    obtain ⟨bi, bi', hf, hev, hfm, htm⟩ := h
+    have hfd' : st'.found = false := hf ▸ hfd0
+    obtain ⟨a1, a2, a3, ts, ts', b1, b2, b3, b4, b5, b6, hs⟩ := htm hfd0
+    have hdb : (d == ' ') = false := by
+      cases h : d == ' ' with
+      | false => rfl
+      | true => rw [beq_iff_eq] at h; subst h; simp [isDelim] at hd
+    have hL : i - ts = i' - ts' := by
+      have := congrArg List.length b5
+      rwa [slice_length s ts i bi, slice_length s' ts' i' bi'] at this
+    have e1 : step st i d = { st with found := true, lastEnd := some (i - st.spacing), out := Token.mk true ts (i - st.spacing) :: st.out, spacing := 0, tagStart := none } := by
+      simp [step, hdb, hd, hfd0, b1]
+    have e2 : step (step st' i' ' ') (i' + 1) d = { st' with found := true, lastEnd := some (i' - st'.spacing), out := Token.mk true ts' (i' - st'.spacing) :: st'.out, spacing := 0, tagStart := none } := by
+      simp [step, hdb, hd, hfd', b2]
+    rw [e1, e2]
+    refine ⟨by omega, by omega, rfl, ?_, ?_, ?_⟩
+    · simp only [evs_cons, tokEv, ↓reduceIte, hev]
+      rw [slice_take s ts (i - st.spacing) i (by omega), slice_take s' ts' (i' - st'.spacing) i' (by omega), b5, ← a3]
+      have : i - st.spacing - ts = i' - st.spacing - ts' := by omega
+      rw [this]
+    · intro _
+      refine ⟨rfl, rfl, i - st.spacing, i' - st'.spacing, rfl, rfl, by omega, by omega, ?_⟩
+      rw [slice_snoc s _ i d hc (by omega), slice_snoc s' _ (i' + 1) d hc' (by omega),
+        slice_snoc s' _ i' ' ' hb' (by omega),
+        slice_drop s ts (i - st.spacing) i (by omega) (by omega),
+        slice_drop s' ts' (i' - st'.spacing) i' (by omega) (by omega), b5, ← a3]
+      have : i - st.spacing - ts = i' - st.spacing - ts' := by omega
+      rw [this]
+      simp [nbs_append, nbs]
+    · intro hx; simp at hx
+
+theorem evs_reverse (s : Str) (l : List Token) : evs s l.reverse = (evs s l).reverse := by
+  simp [evs, List.filterMap_reverse]
+
+/-- the code after the loop -/
+theorem sim_finish {s s' : Str} {st st' : St} (h : Sim s s' st st' s.length s'.length) :
+    evs s (finish st s.length) = evs s' (finish st' s'.length) := by
+  obtain ⟨bi, bi', hf, hev, hfm, htm⟩ := h
+  unfold finish
+  rw [evs_reverse, evs_reverse]
+  congr 1
+  by_cases hfd : st.found = true
+  · obtain ⟨a1, a2, le, le', b1, b2, b3, b4, b5⟩ := hfm hfd
+    simp only [b1, b2, a1, a2]
+    have := pending_ev s le s.length st.out
+    have e1 : (if (s.length != le) = true then Token.mk false le s.length :: st.out else st.out) =
+        (if (le != s.length) = true then Token.mk false le s.length :: st.out else st.out) := by
+      by_cases hx : le = s.length
+      · subst hx; simp
+      · have h1 : (s.length != le) = true := by simpa using Ne.symm hx
+        have h2 : (le != s.length) = true := by simpa using hx
+        simp [h1, h2]
+    have e2 : (if (s'.length != le') = true then Token.mk false le' s'.length :: st'.out else st'.out) =
+        (if (le' != s'.length) = true then Token.mk false le' s'.length :: st'.out else st'.out) := by
+      by_cases hx : le' = s'.length
+      · subst hx; simp
+      · have h1 : (s'.length != le') = true := by simpa using Ne.symm hx
+        have h2 : (le' != s'.length) = true := by simpa using hx
+        simp [h1, h2]
+    rw [e1, e2, pending_ev, pending_ev, hev, clsOf_congr b5]
+  · have hfd0 : st.found = false := by simpa using hfd
+    obtain ⟨a1, a2, a3, ts, ts', b1, b2, b3, b4, b5, b6, hs⟩ := htm hfd0
+    have hL : s.length - ts = s'.length - ts' := by
+      have := congrArg List.length b5
+      rwa [slice_length s ts _ bi, slice_length s' ts' _ bi'] at this
+    have htag : slice s ts (s.length - st.spacing) = slice s' ts' (s'.length - st'.spacing) := by
+      rw [slice_take s ts (s.length - st.spacing) s.length (by omega),
+        slice_take s' ts' (s'.length - st'.spacing) s'.length (by omega), b5, ← a3]
+      have : s.length - st.spacing - ts = s'.length - st.spacing - ts' := by omega
+      rw [this]
+    rw [← a3] at htag
+    simp only [a1, a2, b1, b2, ← a3]
+    by_cases hsp : st.spacing = 0
+    · simp [hsp, evs_cons, tokEv, hev]
+      simpa [hsp] using htag
+    · have hne : (st.spacing != 0) = true := by simpa using hsp
+      simp only [hne, ↓reduceIte, evs_cons, tokEv, Bool.false_eq_true, hev, htag]
+      congr 1
+      rw [slice_drop s ts (s.length - st.spacing) s.length (by omega) (by omega),
+        slice_drop s' ts' (s'.length - st.spacing) s'.length (by omega) (by omega), b5]
+      have : s.length - st.spacing - ts = s'.length - st.spacing - ts' := by omega
+      rw [this]
+
+
+theorem clsOf_blanks {u : Str} (h : ∀ c ∈ u, c = ' ') : clsOf u = none := by
+  apply clsOf_nil_of_nbs
+  simp only [nbs, List.filter_eq_nil_iff]
+  intro c hc
+  simp [h c hc]
+
+/-- the text ends with one more blank in the second run -/
+theorem sim_finish_blank {s s' : Str} {st st' : St} {n' : Nat} (h : Sim s s' st st' s.length n')
+    (hlen : s'.length = n' + 1) (hb : s'[n']? = some ' ') :
+    evs s (finish st s.length) = evs s' (finish (step st' n' ' ') s'.length) := by
+  by_cases hfd : st.found = true
+  · have := sim_blank_right h hfd hb
+    rw [← hlen] at this
+    exact sim_finish this
+  · have hfd0 : st.found = false := by simpa using hfd
+    obtain ⟨bi, bi', hf, hev, hfm, htm⟩ := h
+    obtain ⟨a1, a2, a3, ts, ts', b1, b2, b3, b4, b5, b6, hs⟩ := htm hfd0
+    have hL : s.length - ts = n' - ts' := by
+      have := congrArg List.length b5
+      rwa [slice_length s ts _ bi, slice_length s' ts' _ bi'] at this
+    have e2 : step st' n' ' ' = { st' with spacing := st'.spacing + 1 } := by simp [step]
+    rw [e2]
+    unfold finish
+    rw [evs_reverse, evs_reverse]
+    congr 1
+    have htag : slice s ts (s.length - st.spacing) = slice s' ts' (n' - st.spacing) := by
+      rw [slice_take s ts (s.length - st.spacing) s.length (by omega),
+        slice_take s' ts' (n' - st.spacing) n' (by omega), b5]
+      have : s.length - st.spacing - ts = n' - st.spacing - ts' := by omega
+      rw [this]
+    have hblank : ∀ c ∈ slice s (s.length - st.spacing) s.length, c = ' ' := by
+      rw [slice_drop s ts (s.length - st.spacing) s.length (by omega) (by omega)]
+      have : s.length - st.spacing - ts = s.length - ts - st.spacing := by omega
+      rw [this]; exact b6
+    have hblank' : ∀ c ∈ slice s' (n' - st.spacing) (n' + 1), c = ' ' := by
+      rw [slice_snoc s' _ n' ' ' hb (by omega), slice_drop s' ts' (n' - st.spacing) n' (by omega) (by omega), ← b5]
+      have : n' - st.spacing - ts' = s.length - ts - st.spacing := by omega
+      rw [this]
+      intro c hc
+      rcases List.mem_append.mp hc with hc | hc
+      · exact b6 c hc
+      · simpa using hc
+    simp only [a1, a2, b1, b2, ← a3, hlen]
+    have hn : (st.spacing + 1 != 0) = true := by simp
+    have hsub : n' + 1 - (st.spacing + 1) = n' - st.spacing := by omega
+    simp only [hn, ↓reduceIte, hsub, evs_cons, tokEv, Bool.false_eq_true, clsOf_blanks hblank', Option.toList_none,
+      List.nil_append, hev, htag]
+    by_cases hsp : st.spacing = 0
+    · simp [hsp, evs_cons, tokEv, hev, b5]
+    · have hne : (st.spacing != 0) = true := by simpa using hsp
+      simp [hne, evs_cons, tokEv, clsOf_blanks hblank, hev, htag]
+
+theorem step_delim_found (st : St) (i : Nat) (d : Char) (hd : isDelim d = true) : (step st i d).found = true := by
+  have hdb : (d == ' ') = false := by
+    cases h : d == ' ' with
+    | false => rfl
+    | true => rw [beq_iff_eq] at h; subst h; simp [isDelim] at hd
+  unfold step
+  simp only [hdb, Bool.false_eq_true, ↓reduceIte, hd]
+  cases hf : st.found
+  · cases st.tagStart <;> simp
+  · cases st.lastEnd <;> simp
+    split <;> simp [hf]
+
+theorem run_found_after_delim (st : St) (i : Nat) (a : Str) (d : Char) (hd : isDelim d = true) :
+    (run st i (a ++ [d])).found = true := by
+  rw [run_append]
+  simp only [run]
+  exact step_delim_found _ _ d hd
+
+theorem at_shift (c : Char) (s u : Str) (i : Nat) (h : At s i u) : At (c :: s) (i + 1) u := by
+  intro j x hx
+  have := h j x hx
+  rw [show i + 1 + j = (i + j) + 1 by omega]
+  simpa using this
+
+theorem at_prefix (x y : Str) : At (x ++ y) 0 x := by
+  have := at_self (x ++ y)
+  rw [at_append] at this
+  exact this.1
+
+theorem at_suffix (x y : Str) : At (x ++ y) x.length y := by
+  have := at_self (x ++ y)
+  rw [at_append] at this
+  simpa using this.2
+
+/-- **Blanks next to delimiters do not change what the tree builder sees.** -/
+theorem evs_blank_start (s : Str) : evs s (split s) = evs (' ' :: s) (split (' ' :: s)) := by
+  have h0 := sim_blank_right (sim_init s (' ' :: s)) rfl (by simp)
+  have h1 := sim_run s h0 (at_self s) (at_shift ' ' s s 0 (at_self s))
+  simp only [Nat.zero_add] at h1
+  have h2 : Sim s (' ' :: s) (run {} 0 s) (run (step {} 0 ' ') 1 s) s.length (' ' :: s).length := by
+    simpa [Nat.add_comm] using h1
+  have := sim_finish h2
+  simpa [split, finalSt, run] using this
+
+theorem evs_blank_stop (s : Str) : evs s (split s) = evs (s ++ [' ']) (split (s ++ [' '])) := by
+  have h1 := sim_run s (sim_init s (s ++ [' '])) (at_self s) (at_prefix s [' '])
+  simp only [Nat.zero_add] at h1
+  have hb : (s ++ [' '])[s.length]? = some ' ' := by simp
+  have := sim_finish_blank h1 (by simp) hb
+  simp only [split, finalSt, run_append, Nat.zero_add, run]
+  exact this
+
+theorem at_suffix_cons (x y : Str) (c : Char) : (x ++ c :: y)[x.length]? = some c ∧ At (x ++ c :: y) (x.length + 1) y := by
+  have := at_suffix x (c :: y)
+  rwa [at_cons] at this
+
+theorem evs_blank_after (a b : Str) (d : Char) (hd : isDelim d = true) :
+    evs (a ++ d :: b) (split (a ++ d :: b)) = evs (a ++ d :: ' ' :: b) (split (a ++ d :: ' ' :: b)) := by
+  have e1 : a ++ d :: b = (a ++ [d]) ++ b := by simp
+  have e2 : a ++ d :: ' ' :: b = (a ++ [d]) ++ ' ' :: b := by simp
+  rw [e1, e2]
+  have hfound := run_found_after_delim {} 0 a d hd
+  generalize a ++ [d] = x at *
+  have h1 := sim_run x (sim_init (x ++ b) (x ++ ' ' :: b)) (at_prefix x b) (at_prefix x (' ' :: b))
+  simp only [Nat.zero_add] at h1
+  obtain ⟨hb, hat⟩ := at_suffix_cons x b ' '
+  have h2 := sim_blank_right h1 hfound hb
+  have h3 := sim_run b h2 (at_suffix x b) hat
+  have h4 : Sim (x ++ b) (x ++ ' ' :: b) (run (run {} 0 x) x.length b)
+      (run (step (run {} 0 x) x.length ' ') (x.length + 1) b) (x ++ b).length (x ++ ' ' :: b).length := by
+    simpa [Nat.add_assoc, Nat.add_comm 1] using h3
+  have := sim_finish h4
+  simpa [split, finalSt, run_append, run] using this
+
+theorem evs_blank_before (a b : Str) (d : Char) (hd : isDelim d = true) :
+    evs (a ++ d :: b) (split (a ++ d :: b)) = evs (a ++ ' ' :: d :: b) (split (a ++ ' ' :: d :: b)) := by
+  have h1 := sim_run a (sim_init (a ++ d :: b) (a ++ ' ' :: d :: b)) (at_prefix a (d :: b)) (at_prefix a (' ' :: d :: b))
+  simp only [Nat.zero_add] at h1
+  obtain ⟨hc, hat⟩ := at_suffix_cons a b d
+  obtain ⟨hb', hat'⟩ := at_suffix_cons a (d :: b) ' '
+  rw [at_cons] at hat'
+  have h2 := sim_blank_delim h1 d hd hc hb' hat'.1
+  have h3 := sim_run b h2 hat hat'.2
+  have h4 : Sim (a ++ d :: b) (a ++ ' ' :: d :: b) (run (step (run {} 0 a) a.length d) (a.length + 1) b)
+      (run (step (step (run {} 0 a) a.length ' ') (a.length + 1) d) (a.length + 1 + 1) b)
+      (a ++ d :: b).length (a ++ ' ' :: d :: b).length := by
+    have e1 : (a ++ d :: b).length = a.length + 1 + b.length := by simp; omega
+    have e2 : (a ++ ' ' :: d :: b).length = a.length + 1 + 1 + b.length := by simp; omega
+    rw [e1, e2]; exact h3
+  have := sim_finish h4
+  simpa [split, finalSt, run_append, run] using this
+
+
+end HedVerif.Rewrite
+
+namespace HedVerif.Rewrite
+open HedVerif HedVerif.Validate HedVerif.Generated.CodeMap
+
+/-! ### `sigs`, `errCodes`: bookkeeping -/
+
+@[simp] theorem sigs_nil : sigs [] = [] := rfl
+@[simp] theorem sigs_append (a b : List Issue) : sigs (a ++ b) = sigs a ++ sigs b := by simp [sigs]
+@[simp] theorem sigs_cons (a : Issue) (b : List Issue) : sigs (a :: b) = sig a :: sigs b := rfl
+@[simp] theorem sigs_ite (c : Prop) [Decidable c] (a b : List Issue) :
+    sigs (if c then a else b) = if c then sigs a else sigs b := by split <;> rfl
+@[simp] theorem sig_ite (c : Prop) [Decidable c] (a b : Issue) :
+    sig (if c then a else b) = if c then sig a else sig b := by split <;> rfl
+@[simp] theorem sigs_flatMap {α} (l : List α) (f : α → List Issue) :
+    sigs (l.flatMap f) = l.flatMap (fun x => sigs (f x)) := by simp [sigs, List.map_flatMap]
+@[simp] theorem sigs_map {α} (l : List α) (f : α → Issue) : sigs (l.map f) = l.map (fun x => sig (f x)) := by
+  simp [sigs]
+@[simp] theorem sig_mk (k : Kind) (c : Str) (s : Nat) (sp sb : Option (Nat × Nat)) (ch : Option Nat) (tx : Option Str) :
+    sig ⟨k, c, s, sp, sb, ch, tx⟩ = (c, s) := rfl
+@[simp] theorem code_tagIssue (k : Kind) (t : RTag) : (tagIssue k t).code = k.code := rfl
+@[simp] theorem sev_tagIssue (k : Kind) (t : RTag) : (tagIssue k t).sev = k.sev := rfl
+@[simp] theorem code_subIssue (k : Kind) (t : RTag) (a b : Nat) : (subIssue k t a b).code = k.code := rfl
+@[simp] theorem sev_subIssue (k : Kind) (t : RTag) (a b : Nat) : (subIssue k t a b).sev = k.sev := rfl
+@[simp] theorem code_plain (k : Kind) : (Issue.plain k).code = k.code := rfl
+@[simp] theorem sev_plain (k : Kind) : (Issue.plain k).sev = k.sev := rfl
+@[simp] theorem sig_tagIssue (k : Kind) (t : RTag) : sig (tagIssue k t) = (k.code, k.sev) := rfl
+@[simp] theorem sig_subIssue (k : Kind) (t : RTag) (a b : Nat) : sig (subIssue k t a b) = (k.code, k.sev) := rfl
+@[simp] theorem sig_plain (k : Kind) : sig (Issue.plain k) = (k.code, k.sev) := rfl
+
+/-- the error codes are a function of the signatures -/
+def ecOf (l : List (Str × Nat)) : List Str := l.filterMap fun p => if p.2 < sevWarning then some p.1 else none
+
+theorem errCodes_eq (l : List Issue) : errCodes l = ecOf (sigs l) := by
+  induction l with
+  | nil => rfl
+  | cons x xs ih =>
+    simp only [errCodes, errors, codes, sigs, ecOf, List.map_cons, List.filterMap_cons, sig] at ih ⊢
+    by_cases hx : x.sev < sevWarning
+    · simp [List.filter_cons, Issue.isError, hx, ih]
+    · simp [List.filter_cons, Issue.isError, hx, ih]
+
+theorem errCodes_of_sigs {a b : List Issue} (h : sigs a = sigs b) : errCodes a = errCodes b := by
+  rw [errCodes_eq, errCodes_eq, h]
+
+theorem errCodes_of_sigs_perm {a b : List Issue} (h : (sigs a).Perm (sigs b)) : (errCodes a).Perm (errCodes b) := by
+  rw [errCodes_eq, errCodes_eq]; exact h.filterMap _
+
+theorem errCodes_nil : errCodes [] = [] := rfl
+
+theorem errCodes_ite (c : Prop) [Decidable c] (a b : List Issue) :
+    errCodes (if c then a else b) = if c then errCodes a else errCodes b := by split <;> rfl
+
+theorem errCodes_append (a b : List Issue) : errCodes (a ++ b) = errCodes a ++ errCodes b := by
+  simp [errCodes, errors, codes]
+
+theorem errCodes_flatMap {α : Type} (l : List α) (f : α → List Issue) :
+    errCodes (l.flatMap f) = l.flatMap (fun x => errCodes (f x)) := by
+  induction l with
+  | nil => rfl
+  | cons x xs ih => simp [List.flatMap_cons, errCodes_append, ih]
+
+theorem hasError_eq (l : List Issue) : hasError l = !(errCodes l).isEmpty := by
+  induction l with
+  | nil => rfl
+  | cons x xs ih =>
+    simp only [hasError, List.any_cons] at ih ⊢
+    by_cases hx : x.isError = true
+    · simp [errCodes, errors, codes, hx]
+    · have hx' : x.isError = false := by simpa using hx
+      simp only [hx', Bool.false_or, ih]
+      simp [errCodes, errors, codes, hx']
+
+theorem hasError_congr {a b : List Issue} (h : (errCodes a).Perm (errCodes b)) : hasError a = hasError b := by
+  rw [hasError_eq, hasError_eq]
+  have := h.length_eq
+  cases ha : errCodes a <;> cases hb : errCodes b <;> simp_all
+
+/-- **Composition.** `validate` short-circuits on "any error so far" only; so phase-wise equal error-code
+multisets give equal error-code multisets of the whole validation. -/
+theorem validateP_congr (env : Env) (ph : Bool) (text text' : Str) (p p' : Parsed)
+    (hS : (errCodes (stringIssues env ph text p)).Perm (errCodes (stringIssues env ph text' p')))
+    (hNA : isNA env p.root0 = isNA env p'.root0)
+    (hT : (errCodes (tagIssues env ph p)).Perm (errCodes (tagIssues env ph p')))
+    (hM : (errCodes (semIssues env ph text.length p)).Perm (errCodes (semIssues env ph text'.length p')))
+    (hF : hasError (basicP env ph text p) = false →
+      (errCodes (fullIssues env text.length p)).Perm (errCodes (fullIssues env text'.length p'))) :
+    (errCodes (validateP env ph text p)).Perm (errCodes (validateP env ph text' p')) := by
+  have hB : (errCodes (basicP env ph text p)).Perm (errCodes (basicP env ph text' p')) := by
+    unfold basicP
+    simp only
+    rw [← hasError_congr hS, ← hNA]
+    by_cases h1 : hasError (stringIssues env ph text p) = true
+    · simpa [h1] using hS
+    · by_cases h2 : isNA env p.root0 = true
+      · simpa [h1, h2] using hS
+      · have hST := hS.append hT
+        rw [← errCodes_append, ← errCodes_append] at hST
+        rw [← hasError_congr hST]
+        by_cases h3 : hasError (stringIssues env ph text p ++ tagIssues env ph p) = true
+        · simpa [h1, h2, h3] using hST
+        · have := hST.append hM
+          rw [← errCodes_append, ← errCodes_append] at this
+          simpa [h1, h2, h3] using this
+  unfold validateP
+  simp only
+  rw [← hasError_congr hB]
+  by_cases h : hasError (basicP env ph text p) = true
+  · simpa [h] using hB
+  · have h' : hasError (basicP env ph text p) = false := by simpa using h
+    have := hB.append (hF h')
+    rw [← errCodes_append, ← errCodes_append] at this
+    simpa [h'] using this
+
+
+/-! ### what the schema-based rules see of a tag -/
+
+section core
+variable {env : Env} {t t' : RTag}
+
+theorem Core.refl (t : RTag) : Core t t := ⟨rfl, rfl, rfl, fun _ => rfl⟩
+theorem Core.extension (h : Core t t') : extension t' = extension t := by simp [Validate.extension, h.ext]
+theorem Core.entryAttr (h : Core t t') : entryAttr env t' = entryAttr env t := by simp [Validate.entryAttr, h.entry]
+theorem Core.baseAttr (h : Core t t') : baseAttr env t' = baseAttr env t := by simp [Validate.baseAttr, h.entry]
+theorem Core.strOf (h : Core t t') : strOf env t' = strOf env t := by
+  unfold Validate.strOf; rw [h.entry]
+  cases he : t.entry with
+  | none => simp [h.org he]
+  | some e => simp [h.ns, h.ext]
+theorem Core.shortBase (h : Core t t') : shortBase env t' = shortBase env t := by
+  unfold Validate.shortBase; rw [h.entry]
+  cases he : t.entry with
+  | none => simp [h.org he]
+  | some e => simp
+theorem Core.longTag (h : Core t t') : longTag env t' = longTag env t := by
+  unfold Validate.longTag; rw [h.entry]
+  cases he : t.entry with
+  | none => simp [h.org he]
+  | some e => simp [h.ns, h.ext]
+theorem Core.tagUnitClasses (h : Core t t') : tagUnitClasses env t' = tagUnitClasses env t := by
+  simp [Validate.tagUnitClasses, h.entryAttr]
+theorem Core.defLabel (h : Core t t') : defLabel t' = defLabel t := by simp [Validate.defLabel, h.extension]
+theorem Core.defValue (h : Core t t') : defValue t' = defValue t := by simp [Validate.defValue, h.extension]
+
+theorem existsIssues_core (h : Core t t') : sigs (existsIssues env t') = sigs (existsIssues env t) := by
+  unfold existsIssues
+  simp only [h.extension, h.entryAttr, h.entry, sigs_ite, sigs_cons, sigs_nil, sig_subIssue, sig_mk,
+    code_tagIssue, sev_tagIssue]
+
+theorem valueClassIssues_core (h : Core t t') (sv : Str) :
+    sigs (valueClassIssues env t' sv) = sigs (valueClassIssues env t sv) := by
+  unfold valueClassIssues
+  simp only [h.extension, h.entryAttr, sigs_ite, sigs_cons, sigs_nil, sig_subIssue, sigs_flatMap, sigs_map, sig_mk,
+    sig_ite, code_subIssue, sev_subIssue]
+
+theorem invalidCharsFrom_sigs (cd : CharData) (allowed : List Char) (t t' : RTag) (o : Option Str) :
+    ∀ (s : Str) (i i' : Nat), sigs (invalidCharsFrom cd allowed t' o i' s) = sigs (invalidCharsFrom cd allowed t o i s)
+  | [], _, _ => rfl
+  | c :: cs, i, i' => by
+    simp only [invalidCharsFrom, sigs_append, sigs_ite, sigs_nil, sigs_cons, sig_mk, sev_subIssue]
+    rw [invalidCharsFrom_sigs cd allowed t t' o cs (i + 1) (i' + 1)]
+
+theorem strippedText_core (h : Core t t') (text : Str) : strippedText env t' text = strippedText env t text := by
+  simp [strippedText, h.tagUnitClasses, h.extension]
+theorem unitFound_core (h : Core t t') (text : Str) : unitFound env t' text = unitFound env t text := by
+  simp [unitFound, h.tagUnitClasses]
+theorem valueText_core (h : Core t t') (text : Str) : valueText env t' text = valueText env t text := by
+  simp [valueText, strippedText_core h]
+
+theorem validateUnits_core (h : Core t t') (text : Str) :
+    sigs (validateUnits env t' text) = sigs (validateUnits env t text) := by
+  unfold validateUnits unitIssues extensionCharIssues
+  simp only [h.tagUnitClasses, h.entryAttr, h.extension, valueText_core h, strippedText_core h, unitFound_core h,
+    sigs_ite, sigs_nil, sigs_append, sigs_cons, sig_tagIssue, valueClassIssues_core h,
+    invalidCharsFrom_sigs env.cd _ t t' none text ((orgBase t).length + 1) ((orgBase t').length + 1)]
+
+
+theorem relocate_chars (text text' : Str) : ∀ (es : List (Nat × Char)) (a a' : Nat),
+    (relocate text' a' es).map (·.1) = (relocate text a es).map (·.1)
+  | [], _, _ => rfl
+  | (k, ch) :: es, a, a' => by
+    simp only [relocate]
+    cases findCharFrom text ch a <;> cases findCharFrom text' ch a' <;>
+      simp only [List.map_cons, List.cons.injEq, true_and] <;> exact relocate_chars text text' es _ _
+
+theorem map_congr_fst {β γ : Type} (g : Char → γ) : ∀ (A B : List (Char × β)), A.map (·.1) = B.map (·.1) →
+    A.map (fun x => g x.1) = B.map (fun x => g x.1)
+  | [], [], _ => rfl
+  | [], _ :: _, h => by simp at h
+  | _ :: _, [], h => by simp at h
+  | x :: xs, y :: ys, h => by
+    simp only [List.map_cons, List.cons.injEq] at h ⊢
+    exact ⟨by rw [h.1], map_congr_fst g xs ys h.2⟩
+
+theorem valueClassIssuesAs_core (orig : RTag) (h : Core t t') (sv : Str) :
+    sigs (valueClassIssuesAs env orig t' sv) = sigs (valueClassIssuesAs env orig t sv) := by
+  unfold valueClassIssuesAs
+  simp only [sigs_ite, sigs_nil, sigs_flatMap, sigs_cons, sig_mk, sev_subIssue, sigs_map, sig_ite, sig_subIssue]
+  split
+  · rfl
+  · split
+    · rfl
+    · split
+      · rfl
+      · congr 1
+        funext c
+        split
+        · rfl
+        · by_cases hr : env.var.defCharRelocate = true
+          · simp only [hr, ↓reduceIte, code_subIssue]
+            exact map_congr_fst
+              (fun ch => if (ch == '{' || ch == '}') = true then (Kind.curlyBrace.code, Kind.curlyBrace.sev)
+                else (Kind.valueClassChar.code, Kind.valueClassChar.sev)) _ _
+              (relocate_chars t.org t'.org (problemChars c sv) (orgBase t).length (orgBase t').length)
+          · simp only [hr, Bool.false_eq_true, ↓reduceIte, List.map_map]
+            rfl
+
+theorem withErrorCode_sigs (code : Str) {l l' : List Issue} (h : sigs l' = sigs l) :
+    sigs (withErrorCode code l') = sigs (withErrorCode code l) := by
+  cases l with
+  | nil => cases l' with
+    | nil => rfl
+    | cons _ _ => simp at h
+  | cons i is => cases l' with
+    | nil => simp at h
+    | cons j js =>
+      simp only [sigs_cons, List.cons.injEq] at h
+      have hany : (j :: js).any (·.code == code) = (i :: is).any (·.code == code) := by
+        have : ((j :: js).map sig).any (·.1 == code) = ((i :: is).map sig).any (·.1 == code) := by
+          simp only [List.map_cons]; rw [h.1]; congr 1; exact congrArg _ h.2
+        simpa [List.any_map, sig, Function.comp_def] using this
+      simp only [withErrorCode, hany]
+      split
+      · simp [h.1, h.2]
+      · have hs : j.sev = i.sev := congrArg Prod.snd h.1
+        simp [h.1, h.2, sig, hs]
+        exact congrArg Prod.fst h.1
+
+theorem defUnits_core (p : RTag) (h : Core t t') (text code : Str) :
+    sigs (defUnits env p t' text code) = sigs (defUnits env p t text code) := by
+  unfold defUnits
+  split
+  · rfl
+  · split
+    · apply withErrorCode_sigs
+      simp only [sigs_append, sigs_ite, sigs_nil, sigs_cons, sig_tagIssue, valueClassIssuesAs_core p h]
+    · split
+      · exact valueClassIssuesAs_core p h text
+      · rfl
+
+theorem defPlaceholder_core (h : Core t t') : defPlaceholder env t' = defPlaceholder env t := by
+  simp [defPlaceholder, h.defLabel, h.defValue]
+
+theorem defValueIssues_core (h : Core t t') : sigs (defValueIssues env t') = sigs (defValueIssues env t) := by
+  unfold defValueIssues
+  rw [h.defLabel, defPlaceholder_core h, h.shortBase]
+  cases defLookup env (defLabel t) with
+  | none => rfl
+  | some e =>
+    simp only [sigs_append, valueClassIssues_core h]
+    cases defPlaceholder env t with
+    | none => rfl
+    | some p => simp only [defUnits_core p h]
+
+/-- warnings do not count -/
+theorem errCodes_styleIssues (t : RTag) : errCodes (styleIssues t) = [] := by
+  unfold styleIssues
+  split
+  · simp [errCodes, errors, codes, Issue.isError, tagIssue, Issue.plain, Kind.sev, sevWarning, sev_STYLE_WARNING]
+  · rfl
+
+theorem individualIssues_core (h : Core t t') (b b' : Bool) :
+    errCodes (individualIssues env true b' t') = errCodes (individualIssues env true b t) := by
+  unfold individualIssues
+  simp only [errCodes_append, errCodes_styleIssues, List.append_nil, Bool.not_true, Bool.false_eq_true, ↓reduceIte]
+  rw [errCodes_of_sigs (existsIssues_core h), h.entryAttr]
+  congr 1
+  congr 1
+  · exact errCodes_of_sigs (by simp)
+  · exact errCodes_of_sigs (by simp)
+
+/-- **one tag, phase 3** (placeholders allowed, the default of `HedString.validate`) -/
+theorem tagSemIssues_core (h : Core t t') (b b' : Bool) :
+    errCodes (tagSemIssues env true b' t') = errCodes (tagSemIssues env true b t) := by
+  unfold tagSemIssues
+  simp only [h.shortBase, h.extension, errCodes_append, individualIssues_core h b b']
+  congr 1
+  · congr 1
+    exact errCodes_of_sigs (by simp)
+  · split
+    · exact errCodes_of_sigs (defValueIssues_core h)
+    · split
+      · exact errCodes_of_sigs (validateUnits_core h _)
+      · split
+        · exact errCodes_of_sigs (validateUnits_core h _)
+        · rfl
+
+end core
+
+/-! ### trees: everything is a `flatMap` over nodes -/
+
+theorem tagsList_eq (l : List RNode) : tagsList l = l.flatMap tagsNode := by
+  induction l with
+  | nil => rfl
+  | cons k ks ih => simp [tagsList, ih]
+
+theorem groupsList_eq (top : Bool) (l : List RNode) : groupsList top l = l.flatMap (groupsNode top) := by
+  induction l with
+  | nil => rfl
+  | cons k ks ih => simp [groupsList, ih]
+
+def directTagsOf : RNode → List RTag
+  | .tag t => [t]
+  | .group _ _ => []
+
+theorem directTags_eq (l : List RNode) : directTags l = l.flatMap directTagsOf := by
+  induction l with
+  | nil => rfl
+  | cons k ks ih => cases k <;> simp [directTags, directTagsOf, ih]
+
+def directGroupsOf : RNode → List ((Nat × Nat) × List RNode)
+  | .tag _ => []
+  | .group s k => [(s, k)]
+
+theorem directGroups_eq (l : List RNode) : directGroups l = l.flatMap directGroupsOf := by
+  induction l with
+  | nil => rfl
+  | cons k ks ih => cases k <;> simp [directGroups, directGroupsOf, ih]
+
+section sim
+variable {R : RTag → RTag → Prop}
+
+theorem PointSim.length : ∀ {l m : List RNode}, PointSim R l m → l.length = m.length
+  | [], [], _ => rfl
+  | _ :: ks, _ :: ms, h => by simp [PointSim.length (l := ks) (m := ms) h.2]
+  | [], _ :: _, h => by simp [PointSim] at h
+  | _ :: _, [], h => by simp [PointSim] at h
+
+/-- position by position: a `flatMap` is taken piecewise -/
+theorem PointSim.flatMap_perm {β : Type} (φ φ' : RNode → List β) :
+    ∀ {l m : List RNode}, PointSim R l m → (∀ k ∈ l, ∀ k' ∈ m, NodeSim R k k' → (φ k).Perm (φ' k')) →
+      (l.flatMap φ).Perm (m.flatMap φ')
+  | [], [], _, _ => List.Perm.refl _
+  | k :: ks, k' :: ms, h, hφ => by
+    simp only [List.flatMap_cons]
+    exact (hφ k (by simp) k' (by simp) h.1).append
+      (PointSim.flatMap_perm φ φ' h.2 (fun x hx x' hx' hxx => hφ x (by simp [hx]) x' (by simp [hx']) hxx))
+  | [], _ :: _, h, _ => by simp [PointSim] at h
+  | _ :: _, [], h, _ => by simp [PointSim] at h
+
+theorem ForestSim.flatMap_perm {β : Type} (φ φ' : RNode → List β) {l l' : List RNode} (h : ForestSim R l l')
+    (hφ : ∀ k ∈ l, ∀ k' ∈ l', NodeSim R k k' → (φ k).Perm (φ' k')) : (l.flatMap φ).Perm (l'.flatMap φ') := by
+  obtain ⟨m, hm, hp⟩ := h
+  exact (hm.flatMap_perm φ φ' (fun k hk k' hk' => hφ k hk k' (hp.mem_iff.mp hk'))).trans (hp.flatMap_right φ')
+
+/-- the same with equal pieces: counting -/
+theorem ForestSim.length_eq {l l' : List RNode} (h : ForestSim R l l') : l.length = l'.length := by
+  obtain ⟨m, hm, hp⟩ := h
+  rw [hm.length, hp.length_eq]
+
+mutual
+/-- all tags of related nodes are related, up to order -/
+theorem NodeSim.tags_flatMap {β : Type} (F F' : RTag → List β) (hF : ∀ t t', R t t' → (F t).Perm (F' t')) :
+    ∀ (k k' : RNode), NodeSim R k k' → ((tagsNode k).flatMap F).Perm ((tagsNode k').flatMap F')
+  | .tag t, .tag t', h => by simpa [tagsNode] using hF t t' h
+  | .tag _, .group _ _, h => by simp [NodeSim] at h
+  | .group _ _, .tag _, h => by simp [NodeSim] at h
+  | .group _ ks, .group _ ks', h => by
+    obtain ⟨m, hm, hp⟩ := h
+    simp only [tagsNode, tagsList_eq, List.flatMap_assoc]
+    exact (PointSim.tags_flatMap F F' hF ks m hm).trans (hp.flatMap_right _)
+theorem PointSim.tags_flatMap {β : Type} (F F' : RTag → List β) (hF : ∀ t t', R t t' → (F t).Perm (F' t')) :
+    ∀ (l m : List RNode), PointSim R l m →
+      (l.flatMap fun k => (tagsNode k).flatMap F).Perm (m.flatMap fun k => (tagsNode k).flatMap F')
+  | [], [], _ => List.Perm.refl _
+  | k :: ks, k' :: ms, h => by
+    simp only [List.flatMap_cons]
+    exact (NodeSim.tags_flatMap F F' hF k k' h.1).append (PointSim.tags_flatMap F F' hF ks ms h.2)
+  | [], _ :: _, h => by simp [PointSim] at h
+  | _ :: _, [], h => by simp [PointSim] at h
+end
+
+theorem ForestSim.tags_flatMap {β : Type} (F F' : RTag → List β) (hF : ∀ t t', R t t' → (F t).Perm (F' t'))
+    {l l' : List RNode} (h : ForestSim R l l') : ((tagsList l).flatMap F).Perm ((tagsList l').flatMap F') := by
+  obtain ⟨m, hm, hp⟩ := h
+  simp only [tagsList_eq, List.flatMap_assoc]
+  exact (PointSim.tags_flatMap F F' hF l m hm).trans (hp.flatMap_right _)
+
+/-- direct tags -/
+theorem ForestSim.directTags_flatMap {β : Type} (F F' : RTag → List β) (hF : ∀ t t', R t t' → (F t).Perm (F' t'))
+    {l l' : List RNode} (h : ForestSim R l l') :
+    ((directTags l).flatMap F).Perm ((directTags l').flatMap F') := by
+  simp only [directTags_eq, List.flatMap_assoc]
+  apply h.flatMap_perm
+  intro k _ k' _ hk
+  cases k <;> cases k' <;> simp_all [NodeSim, directTagsOf]
+
+theorem length_flatMap_ite {α : Type} (p : α → Bool) (l : List α) :
+    (l.flatMap fun t => if p t then [()] else []).length = (l.filter p).length := by
+  induction l with
+  | nil => rfl
+  | cons x xs ih => by_cases hx : p x = true <;> simp_all [List.flatMap_cons, List.filter_cons]
+
+/-- counting direct tags with a property the relation respects -/
+theorem ForestSim.directTags_count (p p' : RTag → Bool) (hp : ∀ t t', R t t' → p t = p' t')
+    {l l' : List RNode} (h : ForestSim R l l') :
+    ((directTags l).filter p).length = ((directTags l').filter p').length := by
+  have := (h.directTags_flatMap (fun t => if p t then [()] else []) (fun t => if p' t then [()] else [])
+    (fun t t' ht => by rw [hp t t' ht])).length_eq
+  rwa [length_flatMap_ite, length_flatMap_ite] at this
+
+
+mutual
+theorem NodeSim.groups_flatMap {β : Type} (G G' : GV → List β) :
+    ∀ (top : Bool) (k k' : RNode), NodeSim R k k' →
+      (∀ g ∈ groupsNode top k, ∀ g' ∈ groupsNode top k', GVSim R g g' → (G g).Perm (G' g')) →
+      ((groupsNode top k).flatMap G).Perm ((groupsNode top k').flatMap G')
+  | _, .tag _, .tag _, _, _ => by simp [groupsNode]
+  | _, .tag _, .group _ _, h, _ => by simp [NodeSim] at h
+  | _, .group _ _, .tag _, h, _ => by simp [NodeSim] at h
+  | top, .group s ks, .group s' ks', h, hG => by
+    obtain ⟨m, hm, hp⟩ := h
+    simp only [groupsNode, List.flatMap_cons]
+    refine (hG ⟨s, ks, true, top⟩ (by simp [groupsNode]) ⟨s', ks', true, top⟩ (by simp [groupsNode])
+      ⟨rfl, rfl, m, hm, hp⟩).append ?_
+    have hmem : ∀ g', g' ∈ groupsList false m → g' ∈ groupsList false ks' := by
+      intro g' hg'
+      rw [groupsList_eq] at hg' ⊢
+      exact (hp.flatMap_right _).mem_iff.mp hg'
+    refine (PointSim.groups_flatMap G G' false ks m hm
+      (fun g hg g' hg' => hG g (by simp [groupsNode, hg]) g' (by simp [groupsNode, hmem g' hg']))).trans ?_
+    simp only [groupsList_eq, List.flatMap_assoc]
+    exact hp.flatMap_right _
+theorem PointSim.groups_flatMap {β : Type} (G G' : GV → List β) :
+    ∀ (top : Bool) (l m : List RNode), PointSim R l m →
+      (∀ g ∈ groupsList top l, ∀ g' ∈ groupsList top m, GVSim R g g' → (G g).Perm (G' g')) →
+      ((groupsList top l).flatMap G).Perm ((groupsList top m).flatMap G')
+  | _, [], [], _, _ => List.Perm.refl _
+  | top, k :: ks, k' :: ms, h, hG => by
+    simp only [groupsList, List.flatMap_append]
+    exact (NodeSim.groups_flatMap G G' top k k' h.1
+        (fun g hg g' hg' => hG g (by simp [groupsList, hg]) g' (by simp [groupsList, hg']))).append
+      (PointSim.groups_flatMap G G' top ks ms h.2
+        (fun g hg g' hg' => hG g (by simp [groupsList, hg]) g' (by simp [groupsList, hg'])))
+  | _, [], _ :: _, h, _ => by simp [PointSim] at h
+  | _, _ :: _, [], h, _ => by simp [PointSim] at h
+end
+
+/-- every per-group rule that respects `GVSim` gives the same multiset over all groups -/
+theorem ForestSim.allGroups_flatMap {β : Type} (G G' : GV → List β) {l l' : List RNode} (h : ForestSim R l l')
+    (len len' : Nat)
+    (hG : ∀ g ∈ allGroups len l, ∀ g' ∈ allGroups len' l', GVSim R g g' → (G g).Perm (G' g')) :
+    ((allGroups len l).flatMap G).Perm ((allGroups len' l').flatMap G') := by
+  simp only [allGroups, List.flatMap_cons]
+  refine (hG ⟨(0, len), l, false, false⟩ (by simp [allGroups]) ⟨(0, len'), l', false, false⟩ (by simp [allGroups])
+    ⟨rfl, rfl, h⟩).append ?_
+  obtain ⟨m, hm, hp⟩ := h
+  have hmem : ∀ g', g' ∈ groupsList true m → g' ∈ groupsList true l' := by
+    intro g' hg'
+    rw [groupsList_eq] at hg' ⊢
+    exact (hp.flatMap_right _).mem_iff.mp hg'
+  refine (PointSim.groups_flatMap G G' true l m hm
+    (fun g hg g' hg' => hG g (by simp [allGroups, hg]) g' (by simp [allGroups, hmem g' hg']))).trans ?_
+  simp only [groupsList_eq, List.flatMap_assoc]
+  exact hp.flatMap_right _
+
+end sim
+
+/-! ### `multipleTopBad` looks at its argument as a set with multiplicities -/
+
+theorem nodup_eraseDups {α : Type} [BEq α] [LawfulBEq α] : ∀ (n : Nat) (l : List α), l.length ≤ n → l.eraseDups.Nodup
+  | _, [], _ => by simp
+  | 0, _ :: _, h => by simp at h
+  | n + 1, a :: as, h => by
+    rw [List.eraseDups_cons, List.nodup_cons]
+    constructor
+    · rw [List.mem_eraseDups]; simp
+    · apply nodup_eraseDups n
+      have := List.length_filter_le (fun b => !b == a) as
+      simp only [List.length_cons] at h
+      omega
+
+theorem eraseDups_of_nodup {α : Type} [BEq α] [LawfulBEq α] : ∀ (l : List α), l.Nodup → l.eraseDups = l
+  | [], _ => rfl
+  | a :: as, h => by
+    rw [List.nodup_cons] at h
+    rw [List.eraseDups_cons]
+    have : as.filter (fun b => !b == a) = as := by
+      rw [List.filter_eq_self]
+      intro b hb
+      have : b ≠ a := fun e => h.1 (e ▸ hb)
+      simpa using this
+    rw [this, eraseDups_of_nodup as h.2]
+
+theorem eraseDups_perm {α : Type} [BEq α] [LawfulBEq α] {l l' : List α} (h : l.Perm l') :
+    l.eraseDups.Perm l'.eraseDups :=
+  (List.perm_ext_iff_of_nodup (nodup_eraseDups _ l (Nat.le_refl _)) (nodup_eraseDups _ l' (Nat.le_refl _))).mpr
+    (fun a => by rw [List.mem_eraseDups, List.mem_eraseDups, h.mem_iff])
+
+theorem multipleTopBad_perm {l l' : List Str} (h : l.Perm l') : multipleTopBad l = multipleTopBad l' := by
+  have hd := eraseDups_perm h
+  unfold multipleTopBad
+  simp only [hd.length_eq, h.length_eq]
+  have h1 : l.eraseDups.contains delayKey = l'.eraseDups.contains delayKey := by
+    rw [Bool.eq_iff_iff]; simp [hd.mem_iff]
+  have h2 : (l.eraseDups.filter (· != delayKey)).all (allTimeKeys.contains ·) =
+      (l'.eraseDups.filter (· != delayKey)).all (allTimeKeys.contains ·) := by
+    rw [Bool.eq_iff_iff]
+    simp only [List.all_eq_true, List.mem_filter]
+    constructor <;> intro H x hx
+    · exact H x ⟨hd.mem_iff.mpr hx.1, hx.2⟩
+    · exact H x ⟨hd.mem_iff.mp hx.1, hx.2⟩
+  rw [h1, h2]
+
+/-! ### the rules, group by group -/
+
+theorem filter_flatMap {α β : Type} (p : α → Bool) (f : α → List β) (l : List α) :
+    (l.filter p).flatMap f = l.flatMap (fun x => if p x then f x else []) := by
+  induction l with
+  | nil => rfl
+  | cons x xs ih => by_cases hx : p x = true <;> simp_all [List.filter_cons, List.flatMap_cons]
+
+theorem filter_map_eq_flatMap {α β : Type} (p : α → Bool) (f : α → β) (l : List α) :
+    (l.filter p).map f = l.flatMap (fun x => if p x then [f x] else []) := by
+  induction l with
+  | nil => rfl
+  | cons x xs ih => by_cases hx : p x = true <;> simp_all [List.filter_cons, List.flatMap_cons]
+
+section rules
+variable {R : RTag → RTag → Prop} {env : Env}
+
+theorem levelIssues_sim (hR : ∀ t t', R t t' → Core t t') {g g' : GV} (h : GVSim R g g') :
+    (errCodes (levelIssues env g)).Perm (errCodes (levelIssues env g')) := by
+  obtain ⟨hg, ht, hk⟩ := h
+  unfold levelIssues
+  simp only [errCodes_append]
+  refine ((?_ : List.Perm _ _).append ?_).append ?_
+  · rw [errCodes_flatMap, errCodes_flatMap, filter_flatMap, filter_flatMap]
+    apply hk.directTags_flatMap
+    intro t t' htt
+    rw [(hR t t' htt).baseAttr, hg]
+    by_cases h1 : (baseAttr env t).tagGroup = true <;> by_cases h2 : g'.isGroup = true <;>
+      simp only [h1, h2, Bool.not_true, Bool.false_eq_true, ↓reduceIte, Bool.not_false, List.Perm.refl]
+    exact List.Perm.of_eq (errCodes_of_sigs (by simp))
+  · rw [errCodes_flatMap, errCodes_flatMap, filter_flatMap, filter_flatMap]
+    apply hk.directTags_flatMap
+    intro t t' htt
+    rw [(hR t t' htt).baseAttr, (hR t t' htt).shortBase, ht]
+    by_cases h1 : (baseAttr env t).topLevelTagGroup = true
+    · simp only [h1, ↓reduceIte]
+      split
+      · simp only [errCodes_append]
+        refine List.Perm.append ?_ ?_
+        · split
+          · exact List.Perm.of_eq (errCodes_of_sigs (by simp))
+          · split
+            · exact List.Perm.of_eq (errCodes_of_sigs (by simp))
+            · exact List.Perm.refl _
+        · exact List.Perm.of_eq (errCodes_of_sigs (by simp))
+      · exact List.Perm.refl _
+    · simp [h1]
+  · have hlen := hk.directTags_count (fun t => (baseAttr env t).topLevelTagGroup) (fun t => (baseAttr env t).topLevelTagGroup)
+      (fun t t' htt => by rw [(hR t t' htt).baseAttr])
+    have hperm : (((directTags g.kids).filter fun t => (baseAttr env t).topLevelTagGroup).map (shortBase env)).Perm
+        (((directTags g'.kids).filter fun t => (baseAttr env t).topLevelTagGroup).map (shortBase env)) := by
+      rw [filter_map_eq_flatMap, filter_map_eq_flatMap]
+      apply hk.directTags_flatMap
+      intro t t' htt
+      rw [(hR t t' htt).baseAttr, (hR t t' htt).shortBase]
+    rw [multipleTopBad_perm hperm, hlen, ht]
+    split
+    · rename_i hc
+      simp only [Bool.and_eq_true, decide_eq_true_eq] at hc
+      have h1 := hc.1.2
+      have h2 : ((directTags g.kids).filter fun t => (baseAttr env t).topLevelTagGroup).length > 1 := by omega
+      cases hA : (directTags g.kids).filter fun t => (baseAttr env t).topLevelTagGroup with
+      | nil => simp [hA] at h2
+      | cons a as =>
+        cases hB : (directTags g'.kids).filter fun t => (baseAttr env t).topLevelTagGroup with
+        | nil => simp [hB] at h1
+        | cons b bs => exact List.Perm.of_eq (errCodes_of_sigs (by simp))
+    · exact List.Perm.refl _
+
+theorem groupIssues_sim (hR : ∀ t t', R t t' → Core t t') {g g' : GV} (h : GVSim R g g') :
+    (errCodes (groupIssues env g)).Perm (errCodes (groupIssues env g')) := by
+  unfold groupIssues
+  simp only [errCodes_append]
+  refine List.Perm.append ?_ (levelIssues_sim hR h)
+  obtain ⟨hg, _, hk⟩ := h
+  have : g.kids.isEmpty = g'.kids.isEmpty := by
+    have := hk.length_eq
+    cases h1 : g.kids <;> cases h2 : g'.kids <;> simp_all
+  rw [this, hg]
+  split
+  · exact List.Perm.of_eq (errCodes_of_sigs (by simp [sig]))
+  · exact List.Perm.refl _
+
+theorem countPrefix_sim (hR : ∀ t t', R t t' → Core t t') {l l' : List RNode} (h : ForestSim R l l') (p : Str) :
+    countPrefix env (tagsList l) p = countPrefix env (tagsList l') p := by
+  unfold countPrefix
+  have := (h.tags_flatMap (fun t => if (fold p).isPrefixOf (fold (longTag env t)) then [()] else [])
+    (fun t => if (fold p).isPrefixOf (fold (longTag env t)) then [()] else [])
+    (fun t t' htt => by rw [(hR t t' htt).longTag])).length_eq
+  rwa [length_flatMap_ite, length_flatMap_ite] at this
+
+theorem requiredIssues_sim (hR : ∀ t t', R t t' → Core t t') {l l' : List RNode} (h : ForestSim R l l') :
+    requiredIssues env (tagsList l) = requiredIssues env (tagsList l') := by
+  unfold requiredIssues
+  simp only [countPrefix_sim hR h]
+
+theorem uniqueIssues_sim (hR : ∀ t t', R t t' → Core t t') {l l' : List RNode} (h : ForestSim R l l') :
+    uniqueIssues env (tagsList l) = uniqueIssues env (tagsList l') := by
+  unfold uniqueIssues
+  simp only [countPrefix_sim hR h]
+
+mutual
+theorem node_directTags (top : Bool) : ∀ (k : RNode),
+    (directTagsOf k ++ (groupsNode top k).flatMap fun g => directTags g.kids).Perm (tagsNode k)
+  | .tag t => by simp [directTagsOf, groupsNode, tagsNode]
+  | .group s ks => by
+    simp only [directTagsOf, groupsNode, tagsNode, List.flatMap_cons, List.nil_append]
+    exact list_directTags false ks
+theorem list_directTags (top : Bool) : ∀ (l : List RNode),
+    (directTags l ++ (groupsList top l).flatMap fun g => directTags g.kids).Perm (tagsList l)
+  | [] => by simp [directTags, groupsList, tagsList]
+  | k :: ks => by
+    have h1 := node_directTags top k
+    have h2 := list_directTags top ks
+    have hd : directTags (k :: ks) = directTagsOf k ++ directTags ks := by
+      cases k <;> simp [directTags, directTagsOf]
+    simp only [hd, groupsList, tagsList, List.flatMap_append]
+    refine List.Perm.trans ?_ (h1.append h2)
+    simp only [List.append_assoc]
+    apply List.Perm.append_left
+    rw [← List.append_assoc, ← List.append_assoc]
+    exact List.Perm.append_right _ List.perm_append_comm
+end
+
+/-- every tag is a direct tag of exactly one group (or of the top level) -/
+theorem allGroups_directTags (len : Nat) (root : List RNode) :
+    ((allGroups len root).flatMap fun g => directTags g.kids).Perm (tagsList root) := by
+  simpa [allGroups] using list_directTags true root
+
+end rules
+
+/-! ### the duplicate rule of `Model/Validate.lean` is the one of `Model/Dup.lean` -/
+
+section bridge
+open HedVerif.Dup (LeK skey Adm CleanStr)
+
+theorem strLt_eq : ∀ (a b : Str), Validate.strLt a b = Dup.strLt a b
+  | [], [] => rfl
+  | [], _ :: _ => rfl
+  | _ :: _, [] => rfl
+  | a :: as, b :: bs => by simp [Validate.strLt, Dup.strLt, strLt_eq as bs]
+
+theorem toDupL_eq_map (env : Env) (l : List RNode) : toDupL env l = l.map (toDup env) := by
+  induction l with
+  | nil => rfl
+  | cons k ks ih => simp [toDupL, ih]
+
+mutual
+theorem sortKey_eq (env : Env) : ∀ (n : RNode), sortKeyNode env n = skey (toDup env n)
+  | .tag t => by simp [sortKeyNode, toDup, toDupTag, Dup.render]
+  | .group _ ks => by simp [sortKeyNode, toDup, Dup.render, sortKeyList_eq env ks]
+theorem sortKeyList_eq (env : Env) : ∀ (l : List RNode), sortKeyList env l = Dup.renderL Dup.Tag.key (toDupL env l)
+  | [] => rfl
+  | [n] => by simp [sortKeyList, toDupL, Dup.renderL, sortKey_eq env n]
+  | n :: m :: ns => by
+    have h1 := sortKey_eq env n
+    have h2 := sortKeyList_eq env (m :: ns)
+    simp only [sortKeyList, toDupL, Dup.renderL] at h2 ⊢
+    simp only [skey] at h1
+    rw [h1, h2]
+end
+
+mutual
+theorem nodeEq_eq (env : Env) (hv : env.var.eqFold = true) : ∀ (a b : RNode),
+    nodeEq env a b = Dup.eqv Dup.teq (toDup env a) (toDup env b)
+  | .tag a, .tag b => by simp [nodeEq, tagEq, hv, toDup, toDupTag, Dup.eqv, Dup.teq]
+  | .tag _, .group _ _ => by simp [nodeEq, toDup, Dup.eqv]
+  | .group _ _, .tag _ => by simp [nodeEq, toDup, Dup.eqv]
+  | .group _ ka, .group _ kb => by simp [nodeEq, toDup, Dup.eqv, listEq_eq env hv ka kb]
+theorem listEq_eq (env : Env) (hv : env.var.eqFold = true) : ∀ (a b : List RNode),
+    listEq env a b = Dup.eqvL Dup.teq (toDupL env a) (toDupL env b)
+  | [], [] => by simp [listEq, toDupL, Dup.eqvL]
+  | [], _ :: _ => by simp [listEq, toDupL, Dup.eqvL]
+  | _ :: _, [] => by simp [listEq, toDupL, Dup.eqvL]
+  | a :: as, b :: bs => by simp [listEq, toDupL, Dup.eqvL, nodeEq_eq env hv a b, listEq_eq env hv as bs]
+end
+
+/-! their stable sort: a permutation, ordered by the first component of the key -/
+
+abbrev KEntry := (Str × Str) × RNode
+
+theorem insertKeyed_perm (x : KEntry) (l : List KEntry) : (insertKeyed x l).Perm (x :: l) := by
+  induction l with
+  | nil => exact List.Perm.refl _
+  | cons y ys ih =>
+    simp only [insertKeyed]
+    split
+    · exact List.Perm.refl _
+    · exact (List.Perm.cons y ih).trans (List.Perm.swap x y ys)
+
+theorem sortKeyed_perm (l : List KEntry) : (sortKeyed l).Perm l := by
+  have : ∀ (l acc : List KEntry), (l.foldl (fun acc x => insertKeyed x acc) acc).Perm (acc ++ l) := by
+    intro l
+    induction l with
+    | nil => intro acc; simp
+    | cons x xs ih =>
+      intro acc
+      simp only [List.foldl_cons]
+      refine (ih _).trans ?_
+      refine ((insertKeyed_perm x acc).append_right xs).trans ?_
+      simp only [List.cons_append]
+      exact (List.perm_middle).symm
+  simpa [sortKeyed] using this l []
+
+theorem insertKeyed_pairwise (x : KEntry) (l : List KEntry) (hl : l.Pairwise (LeK fun e : KEntry => e.1.1)) :
+    (insertKeyed x l).Pairwise (LeK fun e : KEntry => e.1.1) := by
+  induction l with
+  | nil => simp [insertKeyed]
+  | cons y ys ih =>
+    rw [List.pairwise_cons] at hl
+    simp only [insertKeyed]
+    by_cases hxy : keyLt x.1 y.1 = true
+    · simp only [hxy, ↓reduceIte, List.pairwise_cons]
+      have hle : LeK (fun e : KEntry => e.1.1) x y := by
+        simp only [keyLt, Bool.or_eq_true, Bool.and_eq_true, beq_iff_eq, strLt_eq] at hxy
+        rcases hxy with h | ⟨h, _⟩
+        · exact Dup.strLt_asymm _ _ h
+        · simp only [LeK]; rw [h]; exact Dup.strLt_irrefl _
+      refine ⟨fun z hz => ?_, hl.1, hl.2⟩
+      rcases List.mem_cons.mp hz with rfl | hz
+      · exact hle
+      · exact Dup.strLe_trans _ _ _ hle (hl.1 z hz)
+    · have hxy' : keyLt x.1 y.1 = false := by simpa using hxy
+      simp only [hxy', Bool.false_eq_true, ↓reduceIte, List.pairwise_cons]
+      refine ⟨fun z hz => ?_, ih hl.2⟩
+      rcases List.mem_cons.mp ((insertKeyed_perm x ys).mem_iff.mp hz) with rfl | hz
+      · simp only [keyLt, Bool.or_eq_false_iff, strLt_eq] at hxy'
+        exact hxy'.1
+      · exact hl.1 z hz
+
+theorem sortKeyed_pairwise (l : List KEntry) : (sortKeyed l).Pairwise (LeK fun e : KEntry => e.1.1) := by
+  have : ∀ (l acc : List KEntry), acc.Pairwise (LeK fun e : KEntry => e.1.1) →
+      (l.foldl (fun acc x => insertKeyed x acc) acc).Pairwise (LeK fun e : KEntry => e.1.1) := by
+    intro l
+    induction l with
+    | nil => intro acc h; simpa using h
+    | cons x xs ih => intro acc h; exact ih _ (insertKeyed_pairwise x acc h)
+  exact this l [] List.Pairwise.nil
+
+
+/-- two key-sorted lists of clean trees with the same canonical members are the same, canonically -/
+theorem sorted_unique (X Y : List Dup.Tree) (hX : X.Pairwise (LeK skey)) (hY : Y.Pairwise (LeK skey))
+    (cX : ∀ a ∈ X, ∀ x ∈ Dup.tags a, CleanStr x.key) (cY : ∀ a ∈ Y, ∀ x ∈ Dup.tags a, CleanStr x.key)
+    (hp : (X.map Dup.canon).Perm (Y.map Dup.canon)) : X.map Dup.canon = Y.map Dup.canon := by
+  have hpw : ∀ Z : List Dup.Tree, Z.Pairwise (LeK skey) → (Z.map Dup.canon).Pairwise (LeK skey) := by
+    intro Z hZ
+    refine List.Pairwise.map _ ?_ hZ
+    intro a b hab
+    simpa [LeK, Dup.skey_canon] using hab
+  apply List.Perm.eq_of_pairwise (le := LeK skey) ?_ (hpw X hX) (hpw Y hY) hp
+  intro a b ha hb hab hba
+  obtain ⟨a0, ha0, rfl⟩ := List.mem_map.mp ha
+  obtain ⟨b0, hb0, rfl⟩ := List.mem_map.mp hb
+  have hk : skey a0 = skey b0 := by
+    have := Dup.strLt_total _ _ hba hab
+    simpa [Dup.skey_canon] using this
+  exact Dup.canon_eq_of_skey (cX a0 ha0) (cY b0 hb0) hk
+
+theorem isTag_toDup (env : Env) (n : RNode) : Dup.isTag (toDup env n) = isTagNode n := by
+  cases n <;> simp [toDup, Dup.isTag, isTagNode]
+
+theorem keyedList_eq_map (env : Env) (l : List RNode) :
+    keyedList env l = l.map (fun n =>
+      ((if env.var.sortCanonical then sortKeyNode env (sortNode env n) else [], strNode env n), sortNode env n)) := by
+  induction l with
+  | nil => rfl
+  | cons k ks ih => simp [keyedList, ih]
+
+theorem varrange_perm (E : List KEntry) : (Validate.arrange E).Perm (E.map (·.2)) := by
+  unfold Validate.arrange
+  apply List.Perm.map
+  exact ((sortKeyed_perm _).append (sortKeyed_perm _)).trans (List.filter_append_perm _ E)
+
+/-- one half (tags, or groups) of the two sorted views -/
+theorem half_bridge (env : Env) (p : RNode → Bool) (q : Dup.Tree → Bool) (hpq : ∀ n, q (Dup.canon (toDup env n)) = p n)
+    (hq : ∀ t, q (Dup.canon t) = q t)
+    (E : List KEntry) (D : List Dup.Entry)
+    (hkey : ∀ e ∈ E, e.1.1 = skey (toDup env e.2))
+    (cE : ∀ e ∈ E, ∀ x ∈ Dup.tags (toDup env e.2), CleanStr x.key) (cD : ∀ e ∈ D, ∀ x ∈ Dup.tags e.2, CleanStr x.key)
+    (hmap : E.map (fun e => Dup.canon (toDup env e.2)) = D.map (fun e => Dup.canon e.2)) :
+    ((sortKeyed (E.filter fun e => p e.2)).map fun e => Dup.canon (toDup env e.2)) =
+      ((Dup.sortBy Dup.ltNew (D.filter fun e => q e.2)).map fun e => Dup.canon e.2) := by
+  have h1 := sorted_unique ((sortKeyed (E.filter fun e => p e.2)).map fun e => toDup env e.2)
+    ((Dup.sortBy Dup.ltNew (D.filter fun e => q e.2)).map fun e => e.2) ?_ ?_ ?_ ?_ ?_
+  · simpa [List.map_map, Function.comp_def] using h1
+  · rw [List.pairwise_map]
+    refine List.Pairwise.imp_of_mem ?_ (sortKeyed_pairwise _)
+    intro a b ha hb hab
+    have ma : a ∈ E := (List.mem_filter.mp ((sortKeyed_perm _).mem_iff.mp ha)).1
+    have mb : b ∈ E := (List.mem_filter.mp ((sortKeyed_perm _).mem_iff.mp hb)).1
+    simpa [LeK, hkey a ma, hkey b mb] using hab
+  · rw [List.pairwise_map]
+    exact Dup.sortNew_pairwise _
+  · intro a ha x hx
+    obtain ⟨e, he, rfl⟩ := List.mem_map.mp ha
+    exact cE e (List.mem_filter.mp ((sortKeyed_perm _).mem_iff.mp he)).1 x hx
+  · intro a ha x hx
+    obtain ⟨e, he, rfl⟩ := List.mem_map.mp ha
+    exact cD e (List.mem_filter.mp ((Dup.sortBy_perm Dup.ltNew _).mem_iff.mp he)).1 x hx
+  · simp only [List.map_map, Function.comp_def]
+    refine ((sortKeyed_perm _).map _).trans ?_
+    refine List.Perm.trans ?_ ((Dup.sortBy_perm Dup.ltNew _).map _).symm
+    have e1 : (E.filter fun e => p e.2).map (fun e => Dup.canon (toDup env e.2)) =
+        (E.map fun e => Dup.canon (toDup env e.2)).filter q := by
+      rw [List.filter_map]; congr 1; apply List.filter_congr; intro e _; simp [hpq]
+    have e2 : (D.filter fun e => q e.2).map (fun e => Dup.canon e.2) = (D.map fun e => Dup.canon e.2).filter q := by
+      rw [List.filter_map]; congr 1; apply List.filter_congr; intro e _; simp [hq]
+    rw [e1, e2, hmap]
+
+theorem arrange_bridge (env : Env) (E : List KEntry) (D : List Dup.Entry)
+    (hkey : ∀ e ∈ E, e.1.1 = skey (toDup env e.2))
+    (cE : ∀ e ∈ E, ∀ x ∈ Dup.tags (toDup env e.2), CleanStr x.key) (cD : ∀ e ∈ D, ∀ x ∈ Dup.tags e.2, CleanStr x.key)
+    (hmap : E.map (fun e => Dup.canon (toDup env e.2)) = D.map (fun e => Dup.canon e.2)) :
+    Dup.canonL (toDupL env (Validate.arrange E)) = Dup.canonL (Dup.arrange Dup.ltNew D) := by
+  simp only [Dup.canonL_eq_map, toDupL_eq_map, Validate.arrange, Dup.arrange, List.map_append, List.map_map,
+    Function.comp_def]
+  have ht := half_bridge env isTagNode Dup.isTag (fun n => by rw [Dup.isTag_canon, isTag_toDup]) Dup.isTag_canon
+    E D hkey cE cD hmap
+  have hg := half_bridge env (fun n => !isTagNode n) Dup.isGrp
+    (fun n => by rw [Dup.isGrp_canon, Dup.isGrp_eq_not, isTag_toDup]) Dup.isGrp_canon E D hkey cE cD hmap
+  rw [ht, hg]
+
+
+theorem mem_tags_toDupL (env : Env) (l : List RNode) (x : Dup.Tag) :
+    x ∈ Dup.tagsL (toDupL env l) ↔ ∃ n ∈ l, x ∈ Dup.tags (toDup env n) := by
+  rw [Dup.mem_tagsL, toDupL_eq_map]
+  constructor
+  · rintro ⟨c, hc, hx⟩
+    obtain ⟨n, hn, rfl⟩ := List.mem_map.mp hc
+    exact ⟨n, hn, hx⟩
+  · rintro ⟨n, hn, hx⟩
+    exact ⟨_, List.mem_map.mpr ⟨n, hn, rfl⟩, hx⟩
+
+mutual
+theorem tags_sortNode (env : Env) : ∀ (n : RNode) (x : Dup.Tag),
+    x ∈ Dup.tags (toDup env (sortNode env n)) ↔ x ∈ Dup.tags (toDup env n)
+  | .tag _, _ => by simp [sortNode]
+  | .group s ks, x => by
+    simp only [sortNode, toDup, Dup.tags, mem_tags_toDupL]
+    have hl := tags_sortNodeL env ks x
+    constructor
+    · rintro ⟨c, hc, hx⟩
+      have hc' := (varrange_perm (keyedList env ks)).mem_iff.mp hc
+      rw [keyedList_eq_map] at hc'
+      simp only [List.map_map, List.mem_map, Function.comp_def] at hc'
+      obtain ⟨n, hn, rfl⟩ := hc'
+      exact hl.mp ⟨n, hn, hx⟩
+    · intro h
+      obtain ⟨n, hn, hx⟩ := hl.mpr h
+      refine ⟨sortNode env n, ?_, hx⟩
+      apply (varrange_perm (keyedList env ks)).mem_iff.mpr
+      rw [keyedList_eq_map]
+      simp only [List.map_map, List.mem_map, Function.comp_def]
+      exact ⟨n, hn, rfl⟩
+theorem tags_sortNodeL (env : Env) : ∀ (l : List RNode) (x : Dup.Tag),
+    (∃ n ∈ l, x ∈ Dup.tags (toDup env (sortNode env n))) ↔ (∃ n ∈ l, x ∈ Dup.tags (toDup env n))
+  | [], _ => by simp
+  | k :: ks, x => by
+    have h1 := tags_sortNode env k x
+    have h2 := tags_sortNodeL env ks x
+    simp only [List.mem_cons, exists_eq_or_imp, h1, h2]
+end
+
+mutual
+/-- the sorted view of `Model/Validate.lean` (canonical variant) and the one of `Model/Dup.lean` agree, canonically -/
+theorem sortNode_canon (env : Env) (hv : env.var.sortCanonical = true) : ∀ (n : RNode),
+    (∀ x ∈ Dup.tags (toDup env n), CleanStr x.key) →
+    Dup.canon (toDup env (sortNode env n)) = Dup.canon (Dup.sortT Dup.ltNew (toDup env n))
+  | .tag _, _ => by simp [sortNode, toDup, Dup.sortT]
+  | .group s ks, hc => by
+    have hcl : ∀ x ∈ Dup.tagsL (toDupL env ks), CleanStr x.key := by simpa [toDup, Dup.tags] using hc
+    simp only [sortNode, toDup, Dup.sortT, Dup.canon, Dup.Tree.grp.injEq]
+    apply arrange_bridge
+    · intro e he
+      rw [keyedList_eq_map] at he
+      obtain ⟨n, _, rfl⟩ := List.mem_map.mp he
+      simp [hv, sortKey_eq]
+    · intro e he x hx
+      rw [keyedList_eq_map] at he
+      obtain ⟨n, hn, rfl⟩ := List.mem_map.mp he
+      exact hcl x ((mem_tags_toDupL env ks x).mpr ⟨n, hn, (tags_sortNode env n x).mp hx⟩)
+    · exact Dup.clean_sortKids hcl
+    · rw [keyedList_eq_map, Dup.sortKids_eq_map]
+      simp only [List.map_map, Function.comp_def]
+      have := sortNodeL_canon env hv ks (fun n hn x hx => hcl x ((mem_tags_toDupL env ks x).mpr ⟨n, hn, hx⟩))
+      rw [toDupL_eq_map, List.map_map] at this ⊢
+      exact this
+theorem sortNodeL_canon (env : Env) (hv : env.var.sortCanonical = true) : ∀ (l : List RNode),
+    (∀ n ∈ l, ∀ x ∈ Dup.tags (toDup env n), CleanStr x.key) →
+    l.map (fun n => Dup.canon (toDup env (sortNode env n))) =
+      (toDupL env l).map (fun c => Dup.canon (Dup.sortT Dup.ltNew c))
+  | [], _ => rfl
+  | k :: ks, hc => by
+    simp only [List.map_cons, toDupL, List.cons.injEq]
+    exact ⟨sortNode_canon env hv k (hc k (by simp)), sortNodeL_canon env hv ks (fun n hn => hc n (by simp [hn]))⟩
+end
+
+/-- **Model equivalence (sorted view).** -/
+theorem sortedView_canon (env : Env) (hv : env.var.sortCanonical = true) (root : List RNode)
+    (hc : ∀ x ∈ Dup.tagsL (toDupL env root), CleanStr x.key) :
+    Dup.canonL (toDupL env (Validate.sortedView env root)) = Dup.canonL (Dup.sortedView (toDupL env root)) := by
+  have := sortNode_canon env hv (.group (0, 0) root) (by simpa [toDup, Dup.tags] using hc)
+  simpa [sortNode, toDup, Dup.sortT, Dup.canon, Validate.sortedView, Dup.sortedView] using this
+
+
+section simdup
+variable {R : RTag → RTag → Prop}
+
+mutual
+/-- related trees have the same canonical sorted view -/
+theorem NodeSim.sortT_canon (env : Env) (hR : ∀ t t', R t t' → Core t t') : ∀ (k k' : RNode), NodeSim R k k' →
+    (∀ x ∈ Dup.tags (toDup env k), CleanStr x.key) → (∀ x ∈ Dup.tags (toDup env k'), CleanStr x.key) →
+    Dup.canon (Dup.sortT Dup.ltNew (toDup env k)) = Dup.canon (Dup.sortT Dup.ltNew (toDup env k'))
+  | .tag t, .tag t', h, _, _ => by
+    have := (hR t t' h).strOf (env := env)
+    simp [toDup, toDupTag, Dup.sortT, Dup.canon, Dup.ctag, this]
+  | .tag _, .group _ _, h, _, _ => by simp [NodeSim] at h
+  | .group _ _, .tag _, h, _, _ => by simp [NodeSim] at h
+  | .group _ ks, .group _ ks', h, hc, hc' => by
+    obtain ⟨m, hm, hp⟩ := h
+    have hcl : ∀ x ∈ Dup.tagsL (toDupL env ks), CleanStr x.key := by simpa [toDup, Dup.tags] using hc
+    have hcl' : ∀ x ∈ Dup.tagsL (toDupL env ks'), CleanStr x.key := by simpa [toDup, Dup.tags] using hc'
+    simp only [toDup, Dup.sortT, Dup.canon, Dup.Tree.grp.injEq]
+    apply Dup.arrange_congr _ _ (Dup.clean_sortKids hcl) (Dup.clean_sortKids hcl')
+    simp only [Dup.sortKids_eq_map, List.map_map, Function.comp_def]
+    have h1 := PointSim.sortT_canon env hR ks m hm
+      (fun n hn x hx => hcl x ((mem_tags_toDupL env ks x).mpr ⟨n, hn, hx⟩))
+      (fun n hn x hx => hcl' x ((mem_tags_toDupL env ks' x).mpr ⟨n, hp.mem_iff.mp hn, hx⟩))
+    rw [h1]
+    rw [toDupL_eq_map, toDupL_eq_map, List.map_map, List.map_map]
+    exact hp.map _
+theorem PointSim.sortT_canon (env : Env) (hR : ∀ t t', R t t' → Core t t') : ∀ (l m : List RNode), PointSim R l m →
+    (∀ n ∈ l, ∀ x ∈ Dup.tags (toDup env n), CleanStr x.key) → (∀ n ∈ m, ∀ x ∈ Dup.tags (toDup env n), CleanStr x.key) →
+    (toDupL env l).map (fun c => Dup.canon (Dup.sortT Dup.ltNew c)) =
+      (toDupL env m).map (fun c => Dup.canon (Dup.sortT Dup.ltNew c))
+  | [], [], _, _, _ => rfl
+  | k :: ks, k' :: ms, h, hc, hc' => by
+    simp only [toDupL, List.map_cons, List.cons.injEq]
+    exact ⟨NodeSim.sortT_canon env hR k k' h.1 (hc k (by simp)) (hc' k' (by simp)),
+      PointSim.sortT_canon env hR ks ms h.2 (fun n hn => hc n (by simp [hn])) (fun n hn => hc' n (by simp [hn]))⟩
+  | [], _ :: _, h, _, _ => by simp [PointSim] at h
+  | _ :: _, [], h, _, _ => by simp [PointSim] at h
+end
+
+theorem ForestSim.sortedView_canon (env : Env) (hR : ∀ t t', R t t' → Core t t') {l l' : List RNode}
+    (h : ForestSim R l l') (hc : ∀ x ∈ Dup.tagsL (toDupL env l), CleanStr x.key)
+    (hc' : ∀ x ∈ Dup.tagsL (toDupL env l'), CleanStr x.key) :
+    Dup.canonL (Dup.sortedView (toDupL env l)) = Dup.canonL (Dup.sortedView (toDupL env l')) := by
+  have := NodeSim.sortT_canon env hR (.group (0, 0) l) (.group (0, 0) l') (by simpa [NodeSim, ForestSim] using h)
+    (by simpa [toDup, Dup.tags] using hc) (by simpa [toDup, Dup.tags] using hc')
+  simpa [toDup, Dup.sortT, Dup.canon, Dup.sortedView] using this
+
+end simdup
+
+/-! the loop -/
+
+theorem errCodes_repeatIssue (c : RNode) :
+    errCodes [repeatIssue c] = [dupCode (if isTagNode c then .tag else .grp)] := by
+  cases c <;> simp [repeatIssue, errCodes, errors, codes, Issue.isError, tagIssue, Issue.plain, Kind.sev, sevWarning,
+    isTagNode, dupCode, sev_HED_TAG_REPEATED, sev_HED_TAG_REPEATED_GROUP]
+
+mutual
+theorem dupNode_eq (env : Env) (hv : env.var.eqFold = true) : ∀ (n : RNode),
+    errCodes (dupNode env n) = (Dup.dupT Dup.teq (toDup env n)).map (fun i => dupCode i.kind)
+  | .tag _ => by simp [dupNode, toDup, Dup.dupT, errCodes, errors, codes]
+  | .group _ ks => by simpa [dupNode, toDup, Dup.dupT] using dupList_eq env hv none ks
+theorem dupList_eq (env : Env) (hv : env.var.eqFold = true) : ∀ (prev : Option RNode) (l : List RNode),
+    errCodes (dupList env prev l) =
+      (Dup.dupL Dup.teq (prev.map (toDup env)) (toDupL env l)).map (fun i => dupCode i.kind)
+  | _, [] => by simp [dupList, toDupL, Dup.dupL, errCodes, errors, codes]
+  | prev, c :: cs => by
+    have e1 : eqPrev env prev c = Dup.eqPrev Dup.teq (prev.map (toDup env)) (toDup env c) := by
+      cases prev with
+      | none => rfl
+      | some p => simp [eqPrev, Dup.eqPrev, nodeEq_eq env hv]
+    simp only [dupList, toDupL, Dup.dupL, errCodes_append, List.map_append, dupNode_eq env hv c,
+      dupList_eq env hv (some c) cs, e1, Option.map_some]
+    congr 1
+    congr 1
+    split
+    · rw [errCodes_repeatIssue]
+      simp [Dup.issueOf, isTag_toDup]
+    · rfl
+end
+
+
+/-- **Model equivalence (duplicate rule).** On the canonical variant (the code after the C04 fixes) the
+duplicate issues of `Model/Validate.lean` are those of `Model/Dup.lean`. -/
+theorem dupIssues_eq (env : Env) (hs : env.var.sortCanonical = true) (he : env.var.eqFold = true)
+    {P : Dup.Tag → Prop} (hP : Adm P) (root : List RNode) (hall : ∀ x ∈ Dup.tagsL (toDupL env root), P x) :
+    errCodes (dupIssues env root) = (Dup.issues (toDupL env root)).map (fun i => dupCode i.kind) := by
+  unfold dupIssues Dup.issues
+  rw [dupList_eq env he none]
+  congr 1
+  apply Dup.dupL_congr hP _ _ none none
+  · intro x hx
+    have := (tags_sortNode env (.group (0, 0) root) x).mp (by simpa [sortNode, toDup, Dup.tags, Validate.sortedView] using hx)
+    exact hall x (by simpa [toDup, Dup.tags] using this)
+  · intro x hx
+    exact hall x ((Dup.tags_sortedView Dup.ltNew _ x).mp hx)
+  · simp
+  · simp
+  · rfl
+  · exact sortedView_canon env hs root (fun x hx => hP.clean x (hall x hx))
+
+theorem dupIssues_sim {R : RTag → RTag → Prop} (env : Env) (hR : ∀ t t', R t t' → Core t t')
+    (hs : env.var.sortCanonical = true) (he : env.var.eqFold = true)
+    {P : Dup.Tag → Prop} (hP : Adm P) {l l' : List RNode} (h : ForestSim R l l')
+    (hall : ∀ x ∈ Dup.tagsL (toDupL env l), P x) (hall' : ∀ x ∈ Dup.tagsL (toDupL env l'), P x) :
+    errCodes (dupIssues env l) = errCodes (dupIssues env l') := by
+  rw [dupIssues_eq env hs he hP l hall, dupIssues_eq env hs he hP l' hall']
+  congr 1
+  unfold Dup.issues
+  apply Dup.dupL_congr hP _ _ none none
+  · exact fun x hx => hall x ((Dup.tags_sortedView Dup.ltNew _ x).mp hx)
+  · exact fun x hx => hall' x ((Dup.tags_sortedView Dup.ltNew _ x).mp hx)
+  · simp
+  · simp
+  · rfl
+  · exact h.sortedView_canon env hR (fun x hx => hP.clean x (hall x hx)) (fun x hx => hP.clean x (hall' x hx))
+
+end bridge
+/-! ### `validate_duration_tags` -/
+
+section duration
+variable {R : RTag → RTag → Prop} {env : Env}
+
+theorem ForestSim.directTags_length {l l' : List RNode} (h : ForestSim R l l') :
+    (directTags l).length = (directTags l').length := by
+  have := h.directTags_count (fun _ => true) (fun _ => true) (fun _ _ _ => rfl)
+  rwa [List.filter_eq_self.mpr (fun _ _ => rfl), List.filter_eq_self.mpr (fun _ _ => rfl)] at this
+
+theorem ForestSim.directGroups_length {l l' : List RNode} (h : ForestSim R l l') :
+    (directGroups l).length = (directGroups l').length := by
+  have := (h.flatMap_perm (fun k => (directGroupsOf k).map fun _ => ()) (fun k => (directGroupsOf k).map fun _ => ())
+    (fun k _ k' _ hk => by cases k <;> cases k' <;> simp_all [NodeSim, directGroupsOf])).length_eq
+  simpa [directGroups_eq, List.length_flatMap] using this
+
+theorem ForestSim.directTags_any (p p' : RTag → Bool) (hp : ∀ t t', R t t' → p t = p' t')
+    {l l' : List RNode} (h : ForestSim R l l') : (directTags l).any p = (directTags l').any p' := by
+  have := h.directTags_count p p' hp
+  rw [Bool.eq_iff_iff]
+  simp only [List.any_eq_true]
+  constructor
+  · rintro ⟨t, ht, hpt⟩
+    have : 0 < ((directTags l').filter p').length := by
+      rw [← this]; exact List.length_pos_of_mem (List.mem_filter.mpr ⟨ht, hpt⟩)
+    obtain ⟨t', ht'⟩ := List.exists_mem_of_length_pos this
+    exact ⟨t', (List.mem_filter.mp ht').1, (List.mem_filter.mp ht').2⟩
+  · rintro ⟨t, ht, hpt⟩
+    have : 0 < ((directTags l).filter p).length := by
+      rw [this]; exact List.length_pos_of_mem (List.mem_filter.mpr ⟨ht, hpt⟩)
+    obtain ⟨t', ht'⟩ := List.exists_mem_of_length_pos this
+    exact ⟨t', (List.mem_filter.mp ht').1, (List.mem_filter.mp ht').2⟩
+
+/-- the body of `validate_duration_tags` for one anchored group, as codes -/
+def durBody (env : Env) (kids : List RNode) : List Str :=
+  let tl := ((tagsList kids).filter fun t => (baseAttr env t).topLevelTagGroup).map (shortBase env)
+  if tl.any (temporalKeys.contains ·) then []
+  else if tl.length != (directTags kids).length then
+    ((directTags kids).filter fun t => !tl.contains (shortBase env t)).flatMap fun t => errCodes [tagIssue .durationOtherTags t]
+  else if (directGroups kids).length != 1 then errCodes [Issue.plain .durationWrongGroups]
+  else []
+
+def durNode (env : Env) : RNode → List Str
+  | .tag _ => []
+  | .group _ kids =>
+    if (directTags kids).any (fun t => (durationKeys.map fold).contains (fold (shortBase env t))) then durBody env kids else []
+
+theorem durationIssues_eq (env : Env) (root : List RNode) :
+    errCodes (durationIssues env root) = root.flatMap (durNode env) := by
+  unfold durationIssues topLevelAnchored
+  induction root with
+  | nil => rfl
+  | cons k ks ih =>
+    cases k with
+    | tag t => simpa [directGroups, durNode] using ih
+    | group s kids =>
+      simp only [directGroups, List.filterMap_cons, List.flatMap_cons, durNode]
+      cases hf : (directTags kids).find? fun t => (durationKeys.map fold).contains (fold (shortBase env t)) with
+      | none =>
+        have : (directTags kids).any (fun t => (durationKeys.map fold).contains (fold (shortBase env t))) = false := by
+          rw [List.find?_eq_none] at hf
+          simpa [List.any_eq_false] using hf
+        simp only [Option.map_none, this, Bool.false_eq_true, ↓reduceIte, List.nil_append]
+        exact ih
+      | some top =>
+        have : (directTags kids).any (fun t => (durationKeys.map fold).contains (fold (shortBase env t))) = true := by
+          rw [List.any_eq_true]
+          exact ⟨top, List.mem_of_find?_eq_some hf, by simpa using List.find?_some hf⟩
+        simp only [Option.map_some, List.flatMap_cons, errCodes_append, this, ↓reduceIte, ih]
+        congr 1
+        unfold durBody
+        simp only
+        split
+        · rfl
+        · split
+          · rw [filter_map_eq_flatMap, errCodes_flatMap, filter_flatMap]
+            congr 1
+            funext t
+            split <;> rfl
+          · split
+            · exact errCodes_of_sigs (by simp)
+            · rfl
+
+theorem durBody_sim (hR : ∀ t t', R t t' → Core t t') {l l' : List RNode} (h : ForestSim R l l') :
+    (durBody env l).Perm (durBody env l') := by
+  have htl : (((tagsList l).filter fun t => (baseAttr env t).topLevelTagGroup).map (shortBase env)).Perm
+      (((tagsList l').filter fun t => (baseAttr env t).topLevelTagGroup).map (shortBase env)) := by
+    rw [filter_map_eq_flatMap, filter_map_eq_flatMap]
+    apply h.tags_flatMap
+    intro t t' htt
+    rw [(hR t t' htt).baseAttr, (hR t t' htt).shortBase]
+  unfold durBody
+  simp only
+  have hany : ∀ p : Str → Bool, (((tagsList l).filter fun t => (baseAttr env t).topLevelTagGroup).map (shortBase env)).any p =
+      (((tagsList l').filter fun t => (baseAttr env t).topLevelTagGroup).map (shortBase env)).any p := by
+    intro p
+    rw [Bool.eq_iff_iff]
+    simp only [List.any_eq_true]
+    constructor <;> rintro ⟨x, hx, hp⟩
+    · exact ⟨x, htl.mem_iff.mp hx, hp⟩
+    · exact ⟨x, htl.mem_iff.mpr hx, hp⟩
+  have hcont : ∀ x : Str, (((tagsList l).filter fun t => (baseAttr env t).topLevelTagGroup).map (shortBase env)).contains x =
+      (((tagsList l').filter fun t => (baseAttr env t).topLevelTagGroup).map (shortBase env)).contains x := by
+    intro x
+    rw [Bool.eq_iff_iff]
+    simp only [List.contains_iff_mem]
+    exact htl.mem_iff
+  rw [hany, htl.length_eq, h.directTags_length, h.directGroups_length]
+  split
+  · exact List.Perm.refl _
+  · split
+    · rw [filter_flatMap, filter_flatMap]
+      apply h.directTags_flatMap
+      intro t t' htt
+      rw [(hR t t' htt).shortBase, hcont]
+      split
+      · exact List.Perm.of_eq (errCodes_of_sigs (by simp))
+      · exact List.Perm.refl _
+    · exact List.Perm.refl _
+
+theorem durationIssues_sim (hR : ∀ t t', R t t' → Core t t') {l l' : List RNode} (h : ForestSim R l l') :
+    (errCodes (durationIssues env l)).Perm (errCodes (durationIssues env l')) := by
+  rw [durationIssues_eq, durationIssues_eq]
+  apply h.flatMap_perm
+  intro k _ k' _ hk
+  cases k with
+  | tag t => cases k' <;> simp_all [NodeSim, durNode]
+  | group s ks =>
+    cases k' with
+    | tag t => simp [NodeSim] at hk
+    | group s' ks' =>
+      have hf : ForestSim R ks ks' := by simpa [NodeSim, ForestSim] using hk
+      simp only [durNode]
+      have hany := hf.directTags_any (fun t => (durationKeys.map fold).contains (fold (shortBase env t)))
+        (fun t => (durationKeys.map fold).contains (fold (shortBase env t)))
+        (fun t t' htt => by rw [(hR t t' htt).shortBase])
+      rw [hany]
+      split
+      · exact durBody_sim hR hf
+      · exact List.Perm.refl _
+
+end duration
+/-! ### `validate_def_tags` -/
+
+section defs
+open HedVerif.Dup (Adm CleanStr)
+variable {R : RTag → RTag → Prop} {env : Env}
+
+mutual
+theorem tags_toDup (env : Env) : ∀ (n : RNode), Dup.tags (toDup env n) = (tagsNode n).map (toDupTag env)
+  | .tag _ => by simp [toDup, Dup.tags, tagsNode]
+  | .group _ ks => by simp [toDup, Dup.tags, tagsNode, tags_toDupL env ks]
+theorem tags_toDupL (env : Env) : ∀ (l : List RNode), Dup.tagsL (toDupL env l) = (tagsList l).map (toDupTag env)
+  | [] => rfl
+  | k :: ks => by simp [toDupL, Dup.tagsL, tagsList, tags_toDup env k, tags_toDupL env ks]
+end
+
+theorem all_toDupL {P : Dup.Tag → Prop} {l : List RNode} (h : ∀ t ∈ tagsList l, P (toDupTag env t)) :
+    ∀ x ∈ Dup.tagsL (toDupL env l), P x := by
+  intro x hx
+  rw [tags_toDupL] at hx
+  obtain ⟨t, ht, rfl⟩ := List.mem_map.mp hx
+  exact h t ht
+
+theorem defExpansion_core {t t' : RTag} (h : Core t t') : defExpansion env t' = defExpansion env t := by
+  simp [defExpansion, h.defLabel, h.defValue]
+
+/-- the comparison of a written Def-expand group with the expansion of its definition -/
+theorem defExpand_compare (hR : ∀ t t', R t t' → Core t t') (hs : env.var.sortCanonical = true)
+    (he : env.var.eqFold = true) {P : Dup.Tag → Prop} (hP : Adm P) {kids kids' : List RNode} (h : ForestSim R kids kids')
+    {t t' : RTag} (htt : Core t t') (rest : List RNode)
+    (h1 : ∀ x ∈ tagsList kids, P (toDupTag env x)) (h1' : ∀ x ∈ tagsList kids', P (toDupTag env x))
+    (h2 : ∀ x ∈ tagsList (.tag t :: rest), P (toDupTag env x))
+    (h2' : ∀ x ∈ tagsList (.tag t' :: rest), P (toDupTag env x)) :
+    listEq env (Validate.sortedView env kids) (Validate.sortedView env (.tag t :: rest)) =
+      listEq env (Validate.sortedView env kids') (Validate.sortedView env (.tag t' :: rest)) := by
+  have key : ∀ (A B : List RNode), (∀ x ∈ tagsList A, P (toDupTag env x)) → (∀ x ∈ tagsList B, P (toDupTag env x)) →
+      (listEq env (Validate.sortedView env A) (Validate.sortedView env B) = true ↔
+        Dup.canonL (Dup.sortedView (toDupL env A)) = Dup.canonL (Dup.sortedView (toDupL env B))) := by
+    intro A B hA hB
+    have pA := all_toDupL hA
+    have pB := all_toDupL hB
+    have qA : ∀ x ∈ Dup.tagsL (toDupL env (Validate.sortedView env A)), P x := by
+      intro x hx
+      have := (tags_sortNode env (.group (0, 0) A) x).mp (by simpa [sortNode, toDup, Dup.tags, Validate.sortedView] using hx)
+      exact pA x (by simpa [toDup, Dup.tags] using this)
+    have qB : ∀ x ∈ Dup.tagsL (toDupL env (Validate.sortedView env B)), P x := by
+      intro x hx
+      have := (tags_sortNode env (.group (0, 0) B) x).mp (by simpa [sortNode, toDup, Dup.tags, Validate.sortedView] using hx)
+      exact pB x (by simpa [toDup, Dup.tags] using this)
+    rw [listEq_eq env he, Dup.eqvL_iff hP _ _ qA qB,
+      sortedView_canon env hs A (fun x hx => hP.clean x (pA x hx)),
+      sortedView_canon env hs B (fun x hx => hP.clean x (pB x hx))]
+  rw [Bool.eq_iff_iff, key _ _ h1 h2, key _ _ h1' h2',
+    h.sortedView_canon env hR (fun x hx => hP.clean x (all_toDupL h1 x hx)) (fun x hx => hP.clean x (all_toDupL h1' x hx))]
+  have : Dup.canonL (Dup.sortedView (toDupL env (.tag t :: rest))) =
+      Dup.canonL (Dup.sortedView (toDupL env (.tag t' :: rest))) := by
+    have := Dup.sortT_canon_congr (.grp (toDupL env (.tag t :: rest))) (.grp (toDupL env (.tag t' :: rest)))
+      (by simpa [Dup.tags] using fun x hx => hP.clean x (all_toDupL h2 x hx))
+      (by simpa [Dup.tags] using fun x hx => hP.clean x (all_toDupL h2' x hx))
+      (by simp [toDupL, toDup, toDupTag, Dup.canon, Dup.canonL, Dup.ctag, htt.strOf])
+    simpa [Dup.sortT, Dup.canon, Dup.sortedView] using this
+  rw [this]
+
+
+theorem defContent_none_core {t t' : RTag} (h : Core t t') :
+    errCodes (defContentIssues env t' none) = errCodes (defContentIssues env t none) := by
+  unfold defContentIssues
+  rw [defExpansion_core h]
+  cases defExpansion env t with
+  | noEntry => exact errCodes_of_sigs (by simp)
+  | mismatch takes => exact errCodes_of_sigs (by simp)
+  | ok rest => rfl
+
+theorem defContent_some_sim (hR : ∀ t t', R t t' → Core t t') (hs : env.var.sortCanonical = true)
+    (he : env.var.eqFold = true) {P : Dup.Tag → Prop} (hP : Adm P) (hD : DefsOK env P)
+    {kids kids' : List RNode} (h : ForestSim R kids kids') {t t' : RTag} (htt : Core t t')
+    (h1 : ∀ x ∈ tagsList kids, P (toDupTag env x)) (h1' : ∀ x ∈ tagsList kids', P (toDupTag env x))
+    (ht : P (toDupTag env t)) (ht' : P (toDupTag env t')) :
+    errCodes (defContentIssues env t (some kids)) = errCodes (defContentIssues env t' (some kids')) := by
+  unfold defContentIssues
+  rw [defExpansion_core htt]
+  cases hx : defExpansion env t with
+  | noEntry => exact errCodes_of_sigs (by simp)
+  | mismatch takes => exact errCodes_of_sigs (by simp)
+  | ok rest =>
+    have hrest := hD t rest hx
+    simp only
+    rw [defExpand_compare hR hs he hP h htt rest h1 h1'
+      (by intro x hx; simp only [tagsList, tagsNode, List.cons_append, List.nil_append, List.mem_cons] at hx
+          rcases hx with rfl | hx
+          · exact ht
+          · exact hrest x hx)
+      (by intro x hx; simp only [tagsList, tagsNode, List.cons_append, List.nil_append, List.mem_cons] at hx
+          rcases hx with rfl | hx
+          · exact ht'
+          · exact hrest x hx)]
+    split
+    · exact errCodes_of_sigs (by simp)
+    · rfl
+
+def defItem (env : Env) : RNode → List Issue
+  | .tag t => if shortBase env t == defKey then defContentIssues env t none else []
+  | .group _ kids =>
+    ((directTags kids).filter (fun t => shortBase env t == defExpandKey)).flatMap
+      (fun t => defContentIssues env t (some kids))
+
+theorem defIssuesOf_eq (env : Env) (l : List RNode) : defIssuesOf env l = l.flatMap (defItem env) := by
+  induction l with
+  | nil => rfl
+  | cons k ks ih => cases k <;> simp [defIssuesOf, defItem, ih]
+
+theorem defIssuesOf_sim (hR : ∀ t t', R t t' → Core t t') (hs : env.var.sortCanonical = true)
+    (he : env.var.eqFold = true) {P : Dup.Tag → Prop} (hP : Adm P) (hD : DefsOK env P)
+    {l l' : List RNode} (h : ForestSim R l l')
+    (h1 : ∀ x ∈ tagsList l, P (toDupTag env x)) (h1' : ∀ x ∈ tagsList l', P (toDupTag env x)) :
+    (errCodes (defIssuesOf env l)).Perm (errCodes (defIssuesOf env l')) := by
+  rw [defIssuesOf_eq, defIssuesOf_eq, errCodes_flatMap, errCodes_flatMap]
+  obtain ⟨m, hm, hp⟩ := h
+  have hmP : ∀ x ∈ tagsList m, P (toDupTag env x) := by
+    intro x hx
+    apply h1' x
+    rw [tagsList_eq] at hx ⊢
+    exact (hp.flatMap_right _).mem_iff.mp hx
+  refine (hm.flatMap_perm _ _ ?_).trans (hp.flatMap_right _)
+  intro k hk k' hk' hkk
+  have pk : ∀ x ∈ tagsNode k, P (toDupTag env x) := fun x hx => h1 x (by
+    rw [tagsList_eq]; exact List.mem_flatMap.mpr ⟨k, hk, hx⟩)
+  have pk' : ∀ x ∈ tagsNode k', P (toDupTag env x) := fun x hx => hmP x (by
+    rw [tagsList_eq]; exact List.mem_flatMap.mpr ⟨k', hk', hx⟩)
+  cases k with
+  | tag t =>
+    cases k' with
+    | group _ _ => simp [NodeSim] at hkk
+    | tag t' =>
+      have hc := hR t t' hkk
+      simp only [defItem, hc.shortBase]
+      split
+      · exact List.Perm.of_eq (defContent_none_core hc).symm
+      · exact List.Perm.refl _
+  | group s ks =>
+    cases k' with
+    | tag _ => simp [NodeSim] at hkk
+    | group s' ks' =>
+      have hf : ForestSim R ks ks' := by simpa [NodeSim, ForestSim] using hkk
+      simp only [defItem, errCodes_flatMap, filter_flatMap, errCodes_ite, errCodes_nil]
+      have hmem : ∀ {l0 : List RNode} {x : RTag}, x ∈ directTags l0 → x ∈ tagsList l0 := fun h => C01.directTags_sub _ _ h
+      -- a pointwise statement needs the tags' membership: go through the positions
+      obtain ⟨m2, hm2, hp2⟩ := hf
+      have hstep : ∀ (a b : List RNode), PointSim R a b → (∀ x ∈ directTags a, x ∈ tagsList ks) →
+          (∀ x ∈ directTags b, x ∈ tagsList ks') →
+          ((directTags a).flatMap fun t => if (shortBase env t == defExpandKey) = true then
+              errCodes (defContentIssues env t (some ks)) else []).Perm
+            ((directTags b).flatMap fun t => if (shortBase env t == defExpandKey) = true then
+              errCodes (defContentIssues env t (some ks')) else []) := by
+        intro a
+        induction a with
+        | nil => intro b hab _ _; cases b <;> simp_all [PointSim, directTags]
+        | cons x xs ih =>
+          intro b hab ha hb
+          cases b with
+          | nil => simp [PointSim] at hab
+          | cons y ys =>
+            obtain ⟨hxy, hrest⟩ := hab
+            cases x with
+            | group _ _ =>
+              cases y with
+              | tag _ => simp [NodeSim] at hxy
+              | group _ _ =>
+                simpa [directTags] using ih ys hrest (fun t ht => ha t (by simpa [directTags] using ht))
+                  (fun t ht => hb t (by simpa [directTags] using ht))
+            | tag t =>
+              cases y with
+              | group _ _ => simp [NodeSim] at hxy
+              | tag t' =>
+                have hc := hR t t' hxy
+                simp only [directTags, List.flatMap_cons, hc.shortBase]
+                refine List.Perm.append ?_ (ih ys hrest (fun t ht => ha t (by simp [directTags, ht]))
+                  (fun t ht => hb t (by simp [directTags, ht])))
+                split
+                · refine List.Perm.of_eq (defContent_some_sim hR hs he hP hD ⟨m2, hm2, hp2⟩ hc ?_ ?_ ?_ ?_)
+                  · exact fun x hx => pk x (by simpa [tagsNode] using hx)
+                  · exact fun x hx => pk' x (by simpa [tagsNode] using hx)
+                  · exact pk t (by simpa [tagsNode] using ha t (by simp [directTags]))
+                  · exact pk' t' (by simpa [tagsNode] using hb t' (by simp [directTags]))
+                · exact List.Perm.refl _
+      have hperm : (directTags m2).Perm (directTags ks') := by
+        rw [directTags_eq, directTags_eq]; exact hp2.flatMap_right _
+      refine (hstep ks m2 hm2 (fun x hx => hmem hx) (fun x hx => hmem (hperm.mem_iff.mp hx))).trans ?_
+      exact hperm.flatMap_right _
+
+
+
+theorem defPhase_sim (hR : ∀ t t', R t t' → Core t t') (hs : env.var.sortCanonical = true)
+    (he : env.var.eqFold = true) {P : Dup.Tag → Prop} (hP : Adm P) (hD : DefsOK env P)
+    {l l' : List RNode} (h : ForestSim R l l') (len len' : Nat)
+    (h1 : ∀ x ∈ tagsList l, P (toDupTag env x)) (h1' : ∀ x ∈ tagsList l', P (toDupTag env x)) :
+    (errCodes (defPhase env len l)).Perm (errCodes (defPhase env len' l')) := by
+  unfold defPhase
+  rw [errCodes_flatMap, errCodes_flatMap]
+  apply h.allGroups_flatMap _ _ len len'
+  intro g hg g' hg' hgg
+  have sub : ∀ (len : Nat) (l : List RNode) (g : GV), g ∈ allGroups len l → ∀ x ∈ tagsList g.kids, x ∈ tagsList l := by
+    intro len l g hg x hx
+    simp only [allGroups, List.mem_cons] at hg
+    rcases hg with rfl | hg
+    · exact hx
+    · exact C01.groupsList_tags true l g hg x hx
+  exact defIssuesOf_sim hR hs he hP hD hgg.2.2 (fun x hx => h1 x (sub len l g hg x hx))
+    (fun x hx => h1' x (sub len' l' g' hg' x hx))
+
+end defs
+
+/-! ### phases -/
+
+section phases
+open HedVerif.Dup (Adm CleanStr)
+variable {R : RTag → RTag → Prop} {env : Env}
+
+theorem individualPhase_codes (env : Env) (len : Nat) (root : List RNode) :
+    (errCodes (individualPhase env true len root)).Perm
+      ((tagsList root).flatMap fun t => errCodes (tagSemIssues env true false t)) := by
+  unfold individualPhase
+  simp only [errCodes_flatMap]
+  have : ∀ g : GV, ∀ b : Bool, ((directTags g.kids).flatMap fun t => errCodes (tagSemIssues env true b t)) =
+      ((directTags g.kids).flatMap fun t => errCodes (tagSemIssues env true false t)) := by
+    intro g b
+    congr 1
+  simp only [this]
+  show ((allGroups len root).flatMap fun g => (directTags g.kids).flatMap fun t =>
+    errCodes (tagSemIssues env true false t)).Perm _
+  rw [← List.flatMap_assoc]
+  exact (allGroups_directTags len root).flatMap_right _
+
+theorem individualPhase_sim (hR : ∀ t t', R t t' → Core t t') {l l' : List RNode} (h : ForestSim R l l')
+    (len len' : Nat) :
+    (errCodes (individualPhase env true len l)).Perm (errCodes (individualPhase env true len' l')) := by
+  refine (individualPhase_codes env len l).trans (List.Perm.trans ?_ (individualPhase_codes env len' l').symm)
+  apply h.tags_flatMap
+  intro t t' htt
+  exact List.Perm.of_eq (tagSemIssues_core (hR t t' htt) false false).symm
+
+/-- **the full-string checks** (the rule on Onset/Offset/Inset groups is a premise here) -/
+theorem fullPhase_sim (hR : ∀ t t', R t t' → Core t t') (hs : env.var.sortCanonical = true)
+    (he : env.var.eqFold = true) {P : Dup.Tag → Prop} (hP : Adm P)
+    {l l' : List RNode} (h : ForestSim R l l') (len len' : Nat)
+    (h1 : ∀ x ∈ tagsList l, P (toDupTag env x)) (h1' : ∀ x ∈ tagsList l', P (toDupTag env x))
+    (honset : (errCodes (onsetIssues env l)).Perm (errCodes (onsetIssues env l'))) :
+    (errCodes (fullPhase env len l)).Perm (errCodes (fullPhase env len' l')) := by
+  unfold fullPhase
+  simp only [errCodes_append]
+  rw [requiredIssues_sim hR h, uniqueIssues_sim hR h, errCodes_flatMap, errCodes_flatMap,
+    dupIssues_sim env hR hs he hP h (all_toDupL h1) (all_toDupL h1')]
+  refine (((((List.Perm.refl _).append (List.Perm.refl _)).append ?_).append (List.Perm.refl _)).append
+    (durationIssues_sim hR h)).append honset
+  exact h.allGroups_flatMap _ _ len len' (fun g _ g' _ hgg => groupIssues_sim hR hgg)
+
+
+/-! #### "n/a", the second canonicalisation pass -/
+
+theorem strList_na (env : Env) (l : List RNode) :
+    strList env l = ['n', '/', 'a'] ↔ ∃ t, l = [.tag t] ∧ strOf env t = ['n', '/', 'a'] := by
+  constructor
+  · intro h
+    match l, h with
+    | [], h => simp [strList] at h
+    | [.tag t], h => exact ⟨t, rfl, by simpa [strList, strNode] using h⟩
+    | [.group _ _], h => simp [strList, strNode] at h
+    | n :: m :: ns, h =>
+      have : ',' ∈ strList env (n :: m :: ns) := by simp [strList]
+      rw [h] at this
+      simp at this
+  · rintro ⟨t, rfl, h⟩
+    simpa [strList, strNode] using h
+
+theorem isNA_sim (hR : ∀ t t', R t t' → Core t t') {l l' : List RNode} (h : ForestSim R l l') :
+    isNA env l = isNA env l' := by
+  obtain ⟨m, hm, hp⟩ := h
+  unfold isNA
+  rw [Bool.eq_iff_iff, beq_iff_eq, beq_iff_eq, strList_na, strList_na]
+  constructor
+  · rintro ⟨t, rfl, ht⟩
+    match m, hm with
+    | [.tag t'], hm =>
+      have hc := hR t t' (by simpa [PointSim, NodeSim] using hm)
+      have : l' = [.tag t'] := by simpa using hp.symm
+      exact ⟨t', this, by rw [hc.strOf]; exact ht⟩
+    | [.group _ _], hm => simp [PointSim, NodeSim] at hm
+    | [], hm => simp [PointSim] at hm
+    | _ :: _ :: _, hm => simp [PointSim] at hm
+  · rintro ⟨t', rfl, ht'⟩
+    have hm' : m = [.tag t'] := by simpa using hp
+    subst hm'
+    match l, hm with
+    | [.tag t], hm =>
+      have hc := hR t t' (by simpa [PointSim, NodeSim] using hm)
+      exact ⟨t, rfl, by rw [← hc.strOf]; exact ht'⟩
+    | [.group _ _], hm => simp [PointSim, NodeSim] at hm
+    | [], hm => simp [PointSim] at hm
+    | _ :: _ :: _, hm => simp [PointSim] at hm
+
+theorem recanonList_map (env : Env) (l : List RNode) :
+    (recanonList env l).1 = l.map (fun n => (recanonNode env n).1) := by
+  induction l with
+  | nil => rfl
+  | cons k ks ih => simp [recanonList, ih]
+
+mutual
+theorem NodeSim.recanon (hrec : ∀ t t', R t t' → R (canon env t).1 (canon env t').1) : ∀ (k k' : RNode),
+    NodeSim R k k' → NodeSim R (recanonNode env k).1 (recanonNode env k').1
+  | .tag t, .tag t', h => by simpa [recanonNode, NodeSim] using hrec t t' h
+  | .tag _, .group _ _, h => by simp [NodeSim] at h
+  | .group _ _, .tag _, h => by simp [NodeSim] at h
+  | .group _ ks, .group _ ks', h => by
+    obtain ⟨m, hm, hp⟩ := h
+    simp only [recanonNode, NodeSim]
+    refine ⟨(recanonList env m).1, PointSim.recanon hrec ks m hm, ?_⟩
+    rw [recanonList_map, recanonList_map]
+    exact hp.map _
+theorem PointSim.recanon (hrec : ∀ t t', R t t' → R (canon env t).1 (canon env t').1) : ∀ (l m : List RNode),
+    PointSim R l m → PointSim R (recanonList env l).1 (recanonList env m).1
+  | [], [], _ => by simp [recanonList, PointSim]
+  | k :: ks, k' :: ms, h => by
+    simp only [recanonList, PointSim]
+    exact ⟨NodeSim.recanon hrec k k' h.1, PointSim.recanon hrec ks ms h.2⟩
+  | [], _ :: _, h => by simp [PointSim] at h
+  | _ :: _, [], h => by simp [PointSim] at h
+end
+
+theorem ForestSim.recanon (hrec : ∀ t t', R t t' → R (canon env t).1 (canon env t').1) {l l' : List RNode}
+    (h : ForestSim R l l') : ForestSim R (recanonList env l).1 (recanonList env l').1 := by
+  obtain ⟨m, hm, hp⟩ := h
+  refine ⟨(recanonList env m).1, PointSim.recanon hrec l m hm, ?_⟩
+  rw [recanonList_map, recanonList_map]
+  exact hp.map _
+
+
+theorem parse_wf (env : Env) (text : Str) : ParsedWF env (parse env text) := ⟨rfl, rfl⟩
+
+/-- **Whole validator, tree level.** Two parsed annotations whose first trees are related (same shape, related
+tags, members of every group permuted) and whose raw-text rules agree get the same multiset of error codes. -/
+theorem validateP_sim (hR : TagRel env R) (hs : env.var.sortCanonical = true) (he : env.var.eqFold = true)
+    {P : Dup.Tag → Prop} (hP : Adm P) (hD : DefsOK env P) (text text' : Str) (p p' : Parsed)
+    (hw : ParsedWF env p) (hw' : ParsedWF env p') (h0 : ForestSim R p.root0 p'.root0)
+    (hText : (errCodes (textIssues env text)).Perm (errCodes (textIssues env text')))
+    (hP0 : ∀ x ∈ tagsList p.root0, P (toDupTag env x)) (hP0' : ∀ x ∈ tagsList p'.root0, P (toDupTag env x))
+    (hP1 : ∀ x ∈ tagsList p.root1, P (toDupTag env x)) (hP1' : ∀ x ∈ tagsList p'.root1, P (toDupTag env x))
+    (honset : (errCodes (onsetIssues env (p.final env))).Perm (errCodes (onsetIssues env (p'.final env)))) :
+    (errCodes (validateP env true text p)).Perm (errCodes (validateP env true text' p')) := by
+  have h1 : ForestSim R p.root1 p'.root1 := by rw [hw.1, hw'.1]; exact h0.recanon hR.recanon
+  have hna := isNA_sim (env := env) hR.core h0
+  apply validateP_congr env true text text' p p'
+  · -- phase 1
+    unfold stringIssues stringPhase
+    have := hText
+    simp only [textIssues, errCodes_append] at this ⊢
+    refine this.append ?_
+    rw [errCodes_flatMap, errCodes_flatMap]
+    exact h0.tags_flatMap _ _ (fun t t' htt => List.Perm.of_eq (hR.slash t t' htt))
+  · exact hna
+  · -- phase 2
+    unfold tagIssues
+    simp only [errCodes_append]
+    refine List.Perm.append ?_ ?_
+    · rw [errCodes_flatMap, errCodes_flatMap]
+      exact h0.tags_flatMap _ _ (fun t t' htt => List.Perm.of_eq (hR.chars t t' htt))
+    · rw [hw.2, hw'.2, C01.recanonList_issues, C01.recanonList_issues, errCodes_flatMap, errCodes_flatMap]
+      exact h0.tags_flatMap _ _ (fun t t' htt => List.Perm.of_eq (hR.lookup t t' htt))
+  · -- phase 3
+    unfold semIssues
+    simp only [errCodes_append]
+    exact (individualPhase_sim hR.core h1 _ _).append (defPhase_sim hR.core hs he hP hD h1 _ _ hP1 hP1')
+  · -- phase 4
+    intro _
+    unfold fullIssues
+    have hfin : ForestSim R (p.final env) (p'.final env) := by
+      unfold Parsed.final; rw [← hna]; split
+      · exact h0
+      · exact h1
+    refine fullPhase_sim hR.core hs he hP hfin _ _ ?_ ?_ honset
+    · unfold Parsed.final; split
+      · exact hP0
+      · exact hP1
+    · unfold Parsed.final; split
+      · exact hP0'
+      · exact hP1'
+
+end phases
+
+/-! ### the relations: same tag (order, spacing), respelled tag (spelling) -/
+
+theorem SameTag.core {t t' : RTag} (h : SameTag t t') : Core t t' := ⟨h.2.1, h.2.2.1, h.2.2.2, fun _ => h.1⟩
+
+theorem SameTag.orgBase {t t' : RTag} (h : SameTag t t') : orgBase t' = orgBase t := by
+  simp [Validate.orgBase, h.1, h.2.2.1, h.2.2.2]
+
+theorem canon_core_sigs (env : Env) {t t' : RTag} (h : Core t t') : sigs (canon env t').2 = sigs (canon env t).2 := by
+  unfold canon
+  rw [h.ns, h.strOf]
+  split
+  · simp
+  · simp only
+    cases Schema.find env.vocab fold (List.drop t.ns.length (strOf env t)) <;> simp
+
+theorem canon_same (env : Env) {t t' : RTag} (h : SameTag t t') : SameTag (canon env t).1 (canon env t').1 := by
+  have hs := h.core.strOf (env := env)
+  obtain ⟨h1, h2, h3, h4⟩ := h
+  unfold canon SameTag
+  rw [h2, hs]
+  split
+  · simp [h1, h4]
+  · simp only
+    cases Schema.find env.vocab fold (List.drop t.ns.length (strOf env t)) <;> simp [h1, h4]
+
+theorem sameTag_rel (env : Env) : TagRel env SameTag where
+  core := fun _ _ h => h.core
+  slash := fun t t' h => errCodes_of_sigs (by simp [slashIssues, h.1])
+  chars := fun t t' h => errCodes_of_sigs (by
+    unfold tagCharIssues
+    simp only [h.2.1, h.orgBase, sigs_append, sigs_ite, sigs_cons, sigs_nil, sig_tagIssue,
+      invalidCharsFrom_sigs env.cd _ t t' none (orgBase t) 0 0])
+  recanon := fun _ _ h => canon_same env h
+  lookup := fun _ _ h => (errCodes_of_sigs (canon_core_sigs env h.core)).symm
+
+
+/-! ### from texts to trees: the abstract forest of a text decides its resolved tree, up to spans -/
+
+mutual
+/-- abstract forests (`ATree` of `Props/C02`): same shape, tag texts related by `Rt`, members permuted -/
+def ANodeSim (Rt : Str → Str → Prop) : ATree → ATree → Prop
+  | .tag w, .tag w' => Rt w w'
+  | .group ks, .group ks' => ∃ m, APointSim Rt ks m ∧ m.Perm ks'
+  | .tag _, .group _ => False
+  | .group _, .tag _ => False
+def APointSim (Rt : Str → Str → Prop) : List ATree → List ATree → Prop
+  | [], [] => True
+  | k :: ks, k' :: ks' => ANodeSim Rt k k' ∧ APointSim Rt ks ks'
+  | [], _ :: _ => False
+  | _ :: _, [] => False
+end
+
+def AForestSim (Rt : Str → Str → Prop) (l l' : List ATree) : Prop := ∃ m, APointSim Rt l m ∧ m.Perm l'
+
+theorem mkTag_eq (env : Env) (text : Str) (a b : Nat) : mkTag env text a b = mkTagW env (Tree.slice text a b) (a, b) := rfl
+
+theorem perm_map_exists {α β : Type} (f : α → β) : ∀ (m : List β) (l : List α), m.Perm (l.map f) →
+    ∃ l' : List α, l'.Perm l ∧ m = l'.map f
+  | [], l, h => by
+    have hl : l = [] := by
+      have := h.length_eq
+      simp at this
+      exact List.length_eq_zero_iff.mp this.symm
+    subst hl; exact ⟨[], List.Perm.refl _, rfl⟩
+  | a :: m, l, h => by
+    have ha : a ∈ l.map f := h.subset (by simp)
+    obtain ⟨x, hx, rfl⟩ := List.mem_map.mp ha
+    obtain ⟨l1, l2, rfl⟩ := List.append_of_mem hx
+    have h2 : m.Perm ((l1 ++ l2).map f) := by
+      have : (f x :: m).Perm (f x :: (l1 ++ l2).map f) := by
+        refine h.trans ?_
+        simp only [List.map_append, List.map_cons]
+        exact List.perm_middle
+      exact this.cons_inv
+    obtain ⟨l', hl', rfl⟩ := perm_map_exists f m (l1 ++ l2) h2
+    exact ⟨x :: l', (List.Perm.cons x hl').trans List.perm_middle.symm, rfl⟩
+
+theorem resolveList_map (env : Env) (s : Str) (l : List Node) : resolveList env s l = l.map (resolveNode env s) := by
+  induction l with
+  | nil => rfl
+  | cons k ks ih => simp [resolveList, ih]
+
+theorem formList_map (form : Nat → Nat → Str) (l : List Node) : formList form l = l.map (formNode form) := by
+  induction l with
+  | nil => rfl
+  | cons k ks ih => simp [formList, ih]
+
+section textsim
+variable {Rt : Str → Str → Prop} {R : RTag → RTag → Prop} (env : Env)
+
+mutual
+theorem resolveNode_sim (hRt : ∀ w w' sp sp', Rt w w' → R (mkTagW env w sp) (mkTagW env w' sp')) (s s' : Str) :
+    ∀ (n n' : Node), ANodeSim Rt (absNode s n) (absNode s' n') → NodeSim R (resolveNode env s n) (resolveNode env s' n')
+  | .tag a b, .tag a' b', h => by
+    simp only [absNode, formNode, ANodeSim] at h
+    simpa [resolveNode, NodeSim, mkTag_eq] using hRt _ _ (a, b) (a', b') h
+  | .tag _ _, .group _ _ _, h => by simp [absNode, formNode, ANodeSim] at h
+  | .group _ _ _, .tag _ _, h => by simp [absNode, formNode, ANodeSim] at h
+  | .group _ _ ks, .group _ _ ks', h => by
+    simp only [absNode, formNode, ANodeSim] at h
+    obtain ⟨mA, hm, hp⟩ := h
+    rw [formList_map] at hp
+    obtain ⟨ks'', hk, rfl⟩ := perm_map_exists _ mA ks' hp
+    simp only [resolveNode, NodeSim]
+    refine ⟨resolveList env s' ks'', resolveList_sim hRt s s' ks ks'' (by simpa [absList, formList_map] using hm), ?_⟩
+    rw [resolveList_map, resolveList_map]
+    exact hk.map _
+theorem resolveList_sim (hRt : ∀ w w' sp sp', Rt w w' → R (mkTagW env w sp) (mkTagW env w' sp')) (s s' : Str) :
+    ∀ (l m : List Node), APointSim Rt (absList s l) (absList s' m) →
+      PointSim R (resolveList env s l) (resolveList env s' m)
+  | [], [], _ => by simp [resolveList, PointSim]
+  | k :: ks, k' :: ms, h => by
+    simp only [absList, formList, APointSim] at h
+    simp only [resolveList, PointSim]
+    exact ⟨resolveNode_sim hRt s s' k k' h.1, resolveList_sim hRt s s' ks ms h.2⟩
+  | [], _ :: _, h => by simp [absList, formList, APointSim] at h
+  | _ :: _, [], h => by simp [absList, formList, APointSim] at h
+end
+
+/-- the abstract forests of two texts are related ⇒ so are their resolved trees -/
+theorem parse_sim (hRt : ∀ w w' sp sp', Rt w w' → R (mkTagW env w sp) (mkTagW env w' sp')) (s s' : Str)
+    (h : AForestSim Rt (absList s (Tree.construct s)) (absList s' (Tree.construct s'))) :
+    ForestSim R (parse env s).root0 (parse env s').root0 := by
+  obtain ⟨mA, hm, hp⟩ := h
+  rw [show absList s' (Tree.construct s') = (Tree.construct s').map (absNode s') from formList_map _ _] at hp
+  obtain ⟨ms, hk, rfl⟩ := perm_map_exists _ mA _ hp
+  refine ⟨resolveList env s' ms, resolveList_sim env hRt s s' _ ms (by simpa [absList, absNode, formList_map] using hm), ?_⟩
+  show (resolveList env s' ms).Perm (resolveList env s' (Tree.construct s'))
+  rw [resolveList_map, resolveList_map]
+  exact hk.map _
+
+end textsim
+
+/-! ### blanks and the rules that read the raw text -/
+
+section blanktext
+variable (env : Env)
+
+theorem badChar_blank : badChar env true ' ' = false := by
+  simp [badChar, invalidStringCharsPlaceholders, isPrintable, isAscii]
+
+theorem charIssuesFrom_codes (ph : Bool) : ∀ (s : Str) (i : Nat),
+    errCodes (charIssuesFrom env ph i s) = s.flatMap fun c => if badChar env ph c then errCodes [charIssue 0 c] else []
+  | [], _ => rfl
+  | c :: cs, i => by
+    simp only [charIssuesFrom, errCodes_append, List.flatMap_cons, charIssuesFrom_codes ph cs (i + 1)]
+    congr 1
+    split
+    · exact errCodes_of_sigs (by simp [charIssue] <;> (split <;> rfl))
+    · rfl
+
+theorem charIssues_blank (a b : Str) :
+    errCodes (charIssues env true (a ++ ' ' :: b)) = errCodes (charIssues env true (a ++ b)) := by
+  simp [charIssues, charIssuesFrom_codes, List.flatMap_append, List.flatMap_cons, badChar_blank]
+
+theorem parens_blank_insert (a b : Str) : parens (a ++ ' ' :: b) = parens (a ++ b) := by
+  simp [parens, List.filterMap_append, List.filterMap_cons, parenOf]
+
+theorem parenIssues_blank (a b : Str) :
+    errCodes (parenIssues (a ++ ' ' :: b)) = errCodes (parenIssues (a ++ b)) := by
+  have hm : Paren.mismatch (a ++ ' ' :: b) = Paren.mismatch (a ++ b) := by
+    rw [Bool.eq_iff_iff, C02.mismatch_reported, C02.mismatch_reported]
+    simp [balanced, parens_blank_insert]
+  unfold parenIssues
+  rw [hm]
+  split
+  · exact errCodes_of_sigs (by simp)
+  · rfl
+
+/-- what the delimiter scan remembers, positions and texts aside -/
+def DRel (cd : CharData) (a b : Validate.DSt) : Prop :=
+  a.last = b.last ∧ sigs a.issues = sigs b.issues ∧ a.stop = b.stop ∧
+    a.cur.all (isSpace cd) = b.cur.all (isSpace cd)
+
+theorem DRel.symm {cd : CharData} {a b : Validate.DSt} (h : DRel cd a b) : DRel cd b a :=
+  ⟨h.1.symm, h.2.1.symm, h.2.2.1.symm, h.2.2.2.symm⟩
+theorem DRel.trans {cd : CharData} {a b c : Validate.DSt} (h : DRel cd a b) (g : DRel cd b c) : DRel cd a c :=
+  ⟨h.1.trans g.1, h.2.1.trans g.2.1, h.2.2.1.trans g.2.2.1, h.2.2.2.trans g.2.2.2⟩
+
+theorem strip_eq (cd : CharData) (s : Str) : Validate.strip cd s = Dup.Scan.strip (isSpace cd) s := rfl
+
+theorem dstep_blank (cd : CharData) (a b : Validate.DSt) (i : Nat) (c : Char) (hc : isSpace cd c = true)
+    (h : DRel cd a b) : DRel cd (dstep cd a i c) b := by
+  obtain ⟨al, ai, ac, aI, as⟩ := a
+  obtain ⟨bl, bi, bc, bI, bs⟩ := b
+  obtain ⟨h1, h2, h3, h4⟩ := h
+  simp only at h1 h2 h3 h4
+  subst h1 h3
+  cases as <;> simp [dstep, DRel, hc, h2, h4]
+
+theorem dstep_nonblank (cd : CharData) (a b : Validate.DSt) (i j : Nat) (c : Char) (hc : isSpace cd c = false)
+    (h : DRel cd a b) : DRel cd (dstep cd a i c) (dstep cd b j c) := by
+  obtain ⟨al, ai, ac, aI, as⟩ := a
+  obtain ⟨bl, bi, bc, bI, bs⟩ := b
+  obtain ⟨h1, h2, h3, h4⟩ := h
+  simp only at h1 h2 h3 h4
+  subst h1 h3
+  cases as
+  · simp only [dstep, Bool.false_eq_true, ↓reduceIte, hc, strip_eq, Dup.Scan.strip_snoc (isSpace cd) c hc]
+    by_cases hcomma : c = ','
+    · subst hcomma
+      simp only [beq_self_eq_true, ↓reduceIte, Dup.Scan.strip_snoc (isSpace cd) ',' hc, h4]
+      split <;> simp [DRel, h2, emptyAt, sig]
+    · have hcomma' : (c == ',') = false := by simpa using hcomma
+      simp only [hcomma', Bool.false_eq_true, ↓reduceIte]
+      by_cases hop : c = '('
+      · subst hop
+        simp only [beq_self_eq_true, ↓reduceIte, Dup.Scan.strip_snoc (isSpace cd) '(' hc, h4]
+        split <;> simp [DRel, h2, hc, h4, commaMissing, sig]
+      · have hop' : (c == '(') = false := by simpa using hop
+        simp only [hop', Bool.false_eq_true, ↓reduceIte]
+        repeat' split
+        all_goals simp [DRel, h2, hc, h4, emptyAt, commaMissing, sig]
+  · simp [dstep, DRel, h2, h4]
+
+theorem drun_rel (cd : CharData) : ∀ (s : Str) (a b : Validate.DSt) (i j : Nat), DRel cd a b →
+    DRel cd (drun cd a i s) (drun cd b j s)
+  | [], _, _, _, _, h => h
+  | c :: cs, a, b, i, j, h => by
+    simp only [drun]
+    by_cases hc : isSpace cd c = true
+    · have h1 := dstep_blank cd a b i c hc h
+      have h2 : DRel cd (dstep cd a i c) (dstep cd b j c) :=
+        h1.trans (dstep_blank cd b b j c hc ⟨rfl, rfl, rfl, rfl⟩).symm
+      exact drun_rel cd cs _ _ _ _ h2
+    · exact drun_rel cd cs _ _ _ _ (dstep_nonblank cd a b i j c (by simpa using hc) h)
+
+theorem drun_append (cd : CharData) : ∀ (a b : Str) (st : Validate.DSt) (i : Nat),
+    drun cd st i (a ++ b) = drun cd (drun cd st i a) (i + a.length) b
+  | [], _, _, _ => by simp [drun]
+  | c :: cs, b, st, i => by
+    simp only [List.cons_append, drun, List.length_cons]
+    rw [drun_append cd cs b _ (i + 1)]
+    congr 1
+    omega
+
+theorem delimIssues_blank (cd : CharData) (a b : Str) :
+    errCodes (delimIssues cd (a ++ ' ' :: b)) = errCodes (delimIssues cd (a ++ b)) := by
+  have hsp : isSpace cd ' ' = true := by simp [isSpace, isAscii]
+  have hrel : DRel cd (drun cd {} 0 (a ++ ' ' :: b)) (drun cd {} 0 (a ++ b)) := by
+    rw [drun_append, drun_append]
+    simp only [drun]
+    apply drun_rel
+    exact dstep_blank cd _ _ _ ' ' hsp ⟨rfl, rfl, rfl, rfl⟩
+  obtain ⟨h1, h2, _, _⟩ := hrel
+  unfold delimIssues
+  simp only
+  apply errCodes_of_sigs
+  rw [sigs_append, sigs_append, h2, h1]
+  congr 1
+  split <;> simp [emptyAt, sig]
+
+/-- **raw-text rules and blanks**: inserting a blank anywhere changes none of their codes -/
+theorem textIssues_blank (a b : Str) :
+    errCodes (textIssues env (a ++ ' ' :: b)) = errCodes (textIssues env (a ++ b)) := by
+  simp only [textIssues, errCodes_append, charIssues_blank, parenIssues_blank, delimIssues_blank]
+
+end blanktext
+
+end HedVerif.Rewrite
+
+namespace HedVerif.Rewrite
+open HedVerif HedVerif.Validate HedVerif.Generated.CodeMap Tok Tree
+
+/-! ### Part 3: texts -/
+
+theorem evs_blankStep {s s' : Str} (h : BlankStep s s') : evs s (split s) = evs s' (split s') := by
+  cases h with
+  | start => exact evs_blank_start _
+  | stop => exact evs_blank_stop _
+  | after a b d hd => exact evs_blank_after a b d hd
+  | before a b d hd => exact evs_blank_before a b d hd
+
+theorem evs_blank {s s' : Str} (h : Blank s s') : evs s (split s) = evs s' (split s') := by
+  induction h with
+  | refl => rfl
+  | ins h => exact evs_blankStep h
+  | del h => exact (evs_blankStep h).symm
+  | trans _ _ ih1 ih2 => exact ih1.trans ih2
+
+/-- the texts of the tag tokens, in order -/
+def tagTexts (s : Str) : List Str := ((split s).filter (·.isTag)).map fun t => slice s t.start t.stop
+
+theorem tagTexts_eq_evs (s : Str) : tagTexts s = (evs s (split s)).filterMap fun e => match e with | .tag w => some w | _ => none := by
+  unfold tagTexts evs
+  generalize split s = l
+  induction l with
+  | nil => rfl
+  | cons t ts ih =>
+    by_cases ht : t.isTag = true
+    · simp [List.filter_cons, ht, tokEv, ih]
+    · have ht' : t.isTag = false := by simpa using ht
+      simp only [List.filter_cons, ht', Bool.false_eq_true, ↓reduceIte, List.filterMap_cons, tokEv, ih]
+      cases h : clsOf (slice s t.start t.stop) with
+      | none => rfl
+      | some e =>
+        have : e = .opn ∨ e = .cls := by
+          unfold clsOf at h
+          split at h <;> simp_all
+        rcases this with rfl | rfl <;> simp
+
+
+/-- **Spacing, parse level (all texts).** Blanks inserted or deleted next to delimiters or at the ends leave the
+texts of the tag tokens and the group structure unchanged: the two parse trees are equal up to spans. -/
+theorem spacing_invariant_text {s s' : Str} (h : Blank s s') :
+    tagTexts s = tagTexts s' ∧ absList s (construct s) = absList s' (construct s') := by
+  have he := evs_blank h
+  exact ⟨by rw [tagTexts_eq_evs, tagTexts_eq_evs, he], by rw [construct_ev, construct_ev, he]⟩
+
+theorem textIssues_blankStep (env : Env) {s s' : Str} (h : BlankStep s s') :
+    errCodes (textIssues env s) = errCodes (textIssues env s') := by
+  cases h with
+  | start => exact (textIssues_blank env [] _).symm
+  | stop => simpa using (textIssues_blank env _ []).symm
+  | after a b d _ =>
+    have := textIssues_blank env (a ++ [d]) b
+    simpa using this.symm
+  | before a b d _ => exact (textIssues_blank env a (d :: b)).symm
+
+theorem textIssues_blankRel (env : Env) {s s' : Str} (h : Blank s s') :
+    errCodes (textIssues env s) = errCodes (textIssues env s') := by
+  induction h with
+  | refl => rfl
+  | ins h => exact textIssues_blankStep env h
+  | del h => exact (textIssues_blankStep env h).symm
+  | trans _ _ ih1 ih2 => exact ih1.trans ih2
+
+mutual
+theorem aNodeSim_refl : ∀ (n : ATree), ANodeSim Eq n n
+  | .tag _ => by simp [ANodeSim]
+  | .group ks => by simpa [ANodeSim] using ⟨ks, aPointSim_refl ks, List.Perm.refl _⟩
+theorem aPointSim_refl : ∀ (l : List ATree), APointSim Eq l l
+  | [] => by simp [APointSim]
+  | k :: ks => by simpa [APointSim] using ⟨aNodeSim_refl k, aPointSim_refl ks⟩
+end
+
+theorem aForestSim_refl (l : List ATree) : AForestSim Eq l l := ⟨l, aPointSim_refl l, List.Perm.refl _⟩
+
+theorem mkTagW_same (env : Env) (w : Str) (sp sp' : Nat × Nat) : SameTag (mkTagW env w sp) (mkTagW env w sp') :=
+  canon_same env ⟨rfl, rfl, rfl, rfl⟩
+
+/-- every tag of a parse satisfies `P` (as the duplicate rule sees it), before and after the second pass -/
+def TagsOK (env : Env) (P : Dup.Tag → Prop) (s : Str) : Prop :=
+  (∀ x ∈ tagsList (parse env s).root0, P (toDupTag env x)) ∧ (∀ x ∈ tagsList (parse env s).root1, P (toDupTag env x))
+
+/-- **Whole validator, text level.** Two texts whose abstract forests are related (same shape, related tag
+texts, members of every group permuted) and whose raw-text rules agree get the same multiset of error codes. -/
+theorem validate_sim {env : Env} {R : RTag → RTag → Prop} {Rt : Str → Str → Prop} (hR : TagRel env R)
+    (hRt : ∀ w w' sp sp', Rt w w' → R (mkTagW env w sp) (mkTagW env w' sp'))
+    (hs : env.var.sortCanonical = true) (he : env.var.eqFold = true)
+    {P : Dup.Tag → Prop} (hP : Dup.Adm P) (hD : DefsOK env P) (s s' : Str)
+    (hA : AForestSim Rt (absList s (construct s)) (absList s' (construct s')))
+    (hText : (errCodes (textIssues env s)).Perm (errCodes (textIssues env s')))
+    (hok : TagsOK env P s) (hok' : TagsOK env P s')
+    (honset : (errCodes (onsetIssues env ((parse env s).final env))).Perm
+      (errCodes (onsetIssues env ((parse env s').final env)))) :
+    (errCodes (validate env true s)).Perm (errCodes (validate env true s')) :=
+  validateP_sim hR hs he hP hD s s' (parse env s) (parse env s') (parse_wf env s) (parse_wf env s')
+    (parse_sim env hRt s s' hA) hText hok.1 hok'.1 hok.2 hok'.2 honset
+
+
+/-! ### the raw-text rules on a printed forest -/
+
+section printed
+variable (cd : CharData)
+
+/-- the scan stands before an element: nothing pending, last significant character none, `,` or `(` -/
+def DReady (st : Validate.DSt) : Prop :=
+  st.stop = false ∧ st.issues = [] ∧ st.cur.all (isSpace cd) = true ∧
+    (st.last = none ∨ st.last = some ',' ∨ st.last = some '(')
+
+/-- the scan stands after an element -/
+def DDone (st : Validate.DSt) : Prop :=
+  st.stop = false ∧ st.issues = [] ∧ st.cur.all (isSpace cd) = false ∧ ∃ c, st.last = some c ∧ c ≠ ',' ∧ c ≠ '('
+
+/-- a tag text the delimiter scan can see: it starts with a character that is not white space -/
+def SolidText (w : Str) : Prop := ValidText w ∧ ∀ c, w.head? = some c → isSpace cd c = false
+
+theorem isSpace_delim {c : Char} (h : isDelim c = true) : isSpace cd c = false := by
+  simp only [isDelim, Bool.or_eq_true, beq_iff_eq] at h
+  rcases h with (rfl | rfl) | rfl <;> simp [isSpace, isAscii]
+
+theorem dstep_tagchar (st : Validate.DSt) (i : Nat) (c : Char) (hd : isDelim c = false)
+    (h : DDone cd st ∧ st.last ≠ some ')' ∨ DReady cd st) (hc : isSpace cd c = false ∨ DDone cd st ∧ st.last ≠ some ')') :
+    DDone cd (dstep cd st i c) ∧ (dstep cd st i c).last ≠ some ')' := by
+  have h1 : (c == ',') = false := by
+    cases hx : c == ',' with
+    | false => rfl
+    | true => rw [beq_iff_eq] at hx; subst hx; simp [isDelim] at hd
+  have h2 : (c == '(') = false := by
+    cases hx : c == '(' with
+    | false => rfl
+    | true => rw [beq_iff_eq] at hx; subst hx; simp [isDelim] at hd
+  have h3 : (c == ')') = false := by
+    cases hx : c == ')' with
+    | false => rfl
+    | true => rw [beq_iff_eq] at hx; subst hx; simp [isDelim] at hd
+  have h3' : c ≠ ')' := by simpa using h3
+  obtain ⟨sl, si, sc, sI, ss⟩ := st
+  by_cases hsp : isSpace cd c = true
+  · -- inner blank of a tag: only possible once the tag has begun
+    rcases hc with hc | hc
+    · rw [hsp] at hc; cases hc
+    · obtain ⟨⟨a1, a2, a3, x, a4, a5, a6⟩, a7⟩ := hc
+      simp only at a1 a2 a3 a4 a7
+      subst a1 a2
+      refine ⟨⟨by simp [dstep, hsp], by simp [dstep, hsp], by simp [dstep, hsp, a3], x, by simp [dstep, hsp, a4], a5, a6⟩, ?_⟩
+      simp [dstep, hsp]; exact a7
+  · have hsp' : isSpace cd c = false := by simpa using hsp
+    have hstop : ss = false := by rcases h with ⟨⟨a, _⟩, _⟩ | ⟨a, _⟩ <;> exact a
+    have hiss : sI = [] := by rcases h with ⟨⟨_, a, _⟩, _⟩ | ⟨_, a, _⟩ <;> exact a
+    have hl1 : ¬ (sl = some ',' ∧ c = ')') := fun hx => h3' hx.2
+    have hl2 : sl ≠ some ')' := by
+      rcases h with ⟨_, a⟩ | ⟨_, _, _, a⟩
+      · exact a
+      · rcases a with a | a | a <;> simp_all
+    subst hstop hiss
+    have e : dstep cd ⟨sl, si, sc, [], false⟩ i c = ⟨some c, i, sc ++ [c], [], false⟩ := by
+      simp only [dstep, Bool.false_eq_true, ↓reduceIte, hsp', h1, h2]
+      have g1 : (sl == some ',' && c == ')') = false := by simp [h3]
+      have g2 : (sl == some ')' && !(c == ',' || c == ')')) = false := by
+        have : (sl == some ')') = false := by simpa using hl2
+        simp [this]
+      have g3 : (sl == some ')' && !(false || c == ')')) = false := by simpa [h1] using g2
+      simp only [g1, g3, Bool.false_eq_true, ↓reduceIte]
+    rw [e]
+    refine ⟨⟨rfl, rfl, by simp [hsp'], c, rfl, by simpa using h1, by simpa using h2⟩, by simp [h3']⟩
+
+end printed
+
+section printed2
+variable (cd : CharData)
+
+theorem drun_tagtail : ∀ (w : Str) (st : Validate.DSt) (i : Nat), (∀ c ∈ w, isDelim c = false) →
+    DDone cd st ∧ st.last ≠ some ')' → DDone cd (drun cd st i w) ∧ (drun cd st i w).last ≠ some ')'
+  | [], _, _, _, h => h
+  | c :: cs, st, i, hw, h => by
+    simp only [drun]
+    exact drun_tagtail cs _ _ (fun x hx => hw x (by simp [hx]))
+      (dstep_tagchar cd st i c (hw c (by simp)) (Or.inl h) (Or.inr h))
+
+theorem drun_tagtext (w : Str) (hw : SolidText cd w) (st : Validate.DSt) (i : Nat) (h : DReady cd st) :
+    DDone cd (drun cd st i w) := by
+  obtain ⟨⟨hne, hnd, _, _⟩, hsol⟩ := hw
+  cases w with
+  | nil => exact absurd rfl hne
+  | cons c cs =>
+    simp only [drun]
+    exact (drun_tagtail cd cs _ _ (fun x hx => hnd x (by simp [hx]))
+      (dstep_tagchar cd st i c (hnd c (by simp)) (Or.inr h) (Or.inl (hsol c rfl)))).1
+
+theorem dstep_comma (st : Validate.DSt) (i : Nat) (h : DDone cd st) : DReady cd (dstep cd st i ',') := by
+  obtain ⟨sl, si, sc, sI, ss⟩ := st
+  obtain ⟨a1, a2, a3, x, a4, a5, a6⟩ := h
+  simp only at a1 a2 a3 a4
+  subst a1 a2
+  have hsp : isSpace cd ',' = false := isSpace_delim cd (by decide)
+  have : (strip cd (sc ++ [',']) == [',']) = false := by
+    rw [strip_eq, Dup.Scan.strip_snoc (isSpace cd) ',' hsp]; exact a3
+  simp [dstep, hsp, this, DReady]
+
+theorem dstep_open (st : Validate.DSt) (i : Nat) (h : DReady cd st) :
+    DReady cd (dstep cd st i '(') ∧ (dstep cd st i '(').last = some '(' := by
+  obtain ⟨sl, si, sc, sI, ss⟩ := st
+  obtain ⟨a1, a2, a3, a4⟩ := h
+  simp only at a1 a2 a3 a4
+  subst a1 a2
+  have hsp : isSpace cd '(' = false := isSpace_delim cd (by decide)
+  have : (strip cd (sc ++ ['(']) == ['(']) = true := by
+    rw [strip_eq, Dup.Scan.strip_snoc (isSpace cd) '(' hsp]; exact a3
+  simp [dstep, hsp, this, DReady]
+
+theorem dstep_close (st : Validate.DSt) (i : Nat) (h : DDone cd st ∨ (DReady cd st ∧ st.last = some '(')) :
+    DDone cd (dstep cd st i ')') := by
+  obtain ⟨sl, si, sc, sI, ss⟩ := st
+  have hsp : isSpace cd ')' = false := isSpace_delim cd (by decide)
+  have hstop : ss = false := by rcases h with ⟨a, _⟩ | ⟨⟨a, _⟩, _⟩ <;> exact a
+  have hiss : sI = [] := by rcases h with ⟨_, a, _⟩ | ⟨⟨_, a, _⟩, _⟩ <;> exact a
+  have hl : sl ≠ some ',' := by
+    rcases h with ⟨_, _, _, x, a4, a5, _⟩ | ⟨_, a⟩
+    · simp only at a4; rw [a4]; simpa using a5
+    · simp only at a; rw [a]; simp
+  subst hstop hiss
+  have g1 : (sl == some ',') = false := by simpa using hl
+  simp [dstep, hsp, g1, DDone]
+
+mutual
+def SolidNode (cd : CharData) : ATree → Prop
+  | .tag w => SolidText cd w
+  | .group kids => SolidList cd kids
+def SolidList (cd : CharData) : List ATree → Prop
+  | [] => True
+  | n :: ns => SolidNode cd n ∧ SolidList cd ns
+end
+
+mutual
+theorem drun_node : ∀ (n : ATree), SolidNode cd n → ∀ (st : Validate.DSt) (i : Nat), DReady cd st →
+    DDone cd (drun cd st i (renderNode n))
+  | .tag w, hn, st, i, h => drun_tagtext cd w hn st i h
+  | .group kids, hn, st, i, h => by
+    simp only [renderNode, drun]
+    rw [drun_append]
+    simp only [drun]
+    have ho := dstep_open cd st i h
+    cases kids with
+    | nil =>
+      simp only [renderList, drun]
+      exact dstep_close cd _ _ (Or.inr ho)
+    | cons k ks =>
+      exact dstep_close cd _ _ (Or.inl (drun_list (k :: ks) (by simp) hn _ _ ho.1))
+theorem drun_list : ∀ (l : List ATree), l ≠ [] → SolidList cd l → ∀ (st : Validate.DSt) (i : Nat), DReady cd st →
+    DDone cd (drun cd st i (renderList l))
+  | [], hne, _, _, _, _ => absurd rfl hne
+  | [n], _, hl, st, i, h => by
+    simp only [renderList]
+    exact drun_node n hl.1 st i h
+  | n :: m :: ns, _, hl, st, i, h => by
+    simp only [renderList]
+    rw [drun_append]
+    simp only [drun]
+    exact drun_list (m :: ns) (by simp) hl.2 _ _ (dstep_comma cd _ _ (drun_node n hl.1 st i h))
+end
+
+/-- the delimiter scan has nothing to say about a printed forest -/
+theorem delimIssues_render (l : List ATree) (hl : SolidList cd l) : delimIssues cd (renderList l) = [] := by
+  unfold delimIssues
+  cases l with
+  | nil => simp [renderList, drun]
+  | cons k ks =>
+    have h := drun_list cd (k :: ks) (by simp) hl {} 0 ⟨rfl, rfl, rfl, Or.inl rfl⟩
+    obtain ⟨_, a2, _, x, a4, a5, _⟩ := h
+    simp only [a2, a4, List.nil_append]
+    have : (some x == some ',') = false := by simpa using a5
+    simp [this]
+
+end printed2
+
+section printed3
+
+mutual
+theorem solid_valid (cd : CharData) : ∀ (n : ATree), SolidNode cd n → ValidNode n
+  | .tag _, h => h.1
+  | .group ks, h => solidList_valid cd ks h
+theorem solidList_valid (cd : CharData) : ∀ (l : List ATree), SolidList cd l → ValidList l
+  | [], _ => trivial
+  | n :: ns, h => ⟨solid_valid cd n h.1, solidList_valid cd ns h.2⟩
+end
+
+theorem parenIssues_render (l : List ATree) (hv : ValidList l) : parenIssues (renderList l) = [] := by
+  have hb : balanced (renderList l) := (C02.build_ok_iff_balanced _).mp ⟨_, build_render l hv⟩
+  have : Paren.mismatch (renderList l) = false := by
+    cases h : Paren.mismatch (renderList l) with
+    | false => rfl
+    | true => exact absurd hb ((C02.mismatch_reported _).mp h)
+  simp [parenIssues, this]
+
+/-- the codes of the character rule, character by character -/
+def charCodes (env : Env) (s : Str) : List Str :=
+  s.flatMap fun c => if badChar env true c then errCodes [charIssue 0 c] else []
+
+theorem charIssues_codes (env : Env) (s : Str) : errCodes (charIssues env true s) = charCodes env s :=
+  charIssuesFrom_codes env true s 0
+
+theorem charCodes_append (env : Env) (a b : Str) : charCodes env (a ++ b) = charCodes env a ++ charCodes env b := by
+  simp [charCodes]
+
+theorem charCodes_delim (env : Env) (c : Char) (h : isDelim c = true) : charCodes env [c] = [] := by
+  simp only [isDelim, Bool.or_eq_true, beq_iff_eq] at h
+  rcases h with (rfl | rfl) | rfl <;>
+    simp [charCodes, badChar, invalidStringCharsPlaceholders, isPrintable, isAscii]
+
+mutual
+def textsNode : ATree → List Str
+  | .tag w => [w]
+  | .group ks => textsList ks
+def textsList : List ATree → List Str
+  | [] => []
+  | k :: ks => textsNode k ++ textsList ks
+end
+
+theorem textsList_eq (l : List ATree) : textsList l = l.flatMap textsNode := by
+  induction l with
+  | nil => rfl
+  | cons k ks ih => simp [textsList, ih]
+
+mutual
+theorem charCodes_node (env : Env) : ∀ (n : ATree), charCodes env (renderNode n) = (textsNode n).flatMap (charCodes env)
+  | .tag w => by simp [renderNode, textsNode]
+  | .group ks => by
+    have := charCodes_list env ks
+    have e : '(' :: (renderList ks ++ [')']) = ['('] ++ renderList ks ++ [')'] := by simp
+    rw [renderNode, e, charCodes_append, charCodes_append, charCodes_delim env '(' (by decide),
+      charCodes_delim env ')' (by decide), this]
+    simp [textsNode]
+theorem charCodes_list (env : Env) : ∀ (l : List ATree), charCodes env (renderList l) = (textsList l).flatMap (charCodes env)
+  | [] => by simp [renderList, textsList, charCodes]
+  | [n] => by simp [renderList, textsList, charCodes_node env n]
+  | n :: m :: ns => by
+    have h1 := charCodes_node env n
+    have h2 := charCodes_list env (m :: ns)
+    have e : renderNode n ++ ',' :: renderList (m :: ns) = renderNode n ++ [','] ++ renderList (m :: ns) := by simp
+    rw [renderList, e, charCodes_append, charCodes_append, charCodes_delim env ',' (by decide), h1, h2]
+    simp [textsList]
+end
+
+section asim
+variable {Rt : Str → Str → Prop}
+
+mutual
+theorem ANodeSim.texts_flatMap {β : Type} (F : Str → List β) (hF : ∀ w w', Rt w w' → (F w).Perm (F w')) :
+    ∀ (k k' : ATree), ANodeSim Rt k k' → ((textsNode k).flatMap F).Perm ((textsNode k').flatMap F)
+  | .tag w, .tag w', h => by simpa [textsNode] using hF w w' h
+  | .tag _, .group _, h => by simp [ANodeSim] at h
+  | .group _, .tag _, h => by simp [ANodeSim] at h
+  | .group ks, .group ks', h => by
+    obtain ⟨m, hm, hp⟩ := h
+    simp only [textsNode, textsList_eq, List.flatMap_assoc]
+    exact (APointSim.texts_flatMap F hF ks m hm).trans (hp.flatMap_right _)
+theorem APointSim.texts_flatMap {β : Type} (F : Str → List β) (hF : ∀ w w', Rt w w' → (F w).Perm (F w')) :
+    ∀ (l m : List ATree), APointSim Rt l m →
+      (l.flatMap fun k => (textsNode k).flatMap F).Perm (m.flatMap fun k => (textsNode k).flatMap F)
+  | [], [], _ => List.Perm.refl _
+  | k :: ks, k' :: ms, h => by
+    simp only [List.flatMap_cons]
+    exact (ANodeSim.texts_flatMap F hF k k' h.1).append (APointSim.texts_flatMap F hF ks ms h.2)
+  | [], _ :: _, h => by simp [APointSim] at h
+  | _ :: _, [], h => by simp [APointSim] at h
+end
+
+theorem AForestSim.texts_flatMap {β : Type} (F : Str → List β) (hF : ∀ w w', Rt w w' → (F w).Perm (F w'))
+    {l l' : List ATree} (h : AForestSim Rt l l') : ((textsList l).flatMap F).Perm ((textsList l').flatMap F) := by
+  obtain ⟨m, hm, hp⟩ := h
+  simp only [textsList_eq, List.flatMap_assoc]
+  exact (APointSim.texts_flatMap F hF l m hm).trans (hp.flatMap_right _)
+
+/-- the raw-text rules on two printed forests whose tag texts have the same forbidden characters -/
+theorem textIssues_render (env : Env) {l l' : List ATree} (hl : SolidList env.cd l) (hl' : SolidList env.cd l')
+    (h : AForestSim Rt l l') (hRt : ∀ w w', Rt w w' → (charCodes env w).Perm (charCodes env w')) :
+    (errCodes (textIssues env (renderList l))).Perm (errCodes (textIssues env (renderList l'))) := by
+  simp only [textIssues, errCodes_append, parenIssues_render l (solidList_valid _ l hl),
+    parenIssues_render l' (solidList_valid _ l' hl'), delimIssues_render _ l hl, delimIssues_render _ l' hl',
+    charIssues_codes, charCodes_list, errCodes_nil, List.append_nil]
+  exact h.texts_flatMap _ hRt
+
+end asim
+end printed3
+
+/-! ### the Onset/Offset/Inset rule: vacuous when no top-level group is anchored by such a tag -/
+
+def NoTemporal (env : Env) (root : List RNode) : Prop := topLevelAnchored env temporalKeys root = []
+
+theorem onsetIssues_nil {env : Env} {root : List RNode} (h : NoTemporal env root) : onsetIssues env root = [] := by
+  simp [onsetIssues, NoTemporal] at *
+  simp [h]
+
+def anchoredOf (env : Env) : RNode → List Unit
+  | .tag _ => []
+  | .group _ ks =>
+    if (directTags ks).any (fun t => (temporalKeys.map fold).contains (fold (shortBase env t))) then [()] else []
+
+theorem noTemporal_iff (env : Env) (root : List RNode) : NoTemporal env root ↔ root.flatMap (anchoredOf env) = [] := by
+  unfold NoTemporal topLevelAnchored
+  induction root with
+  | nil => simp [directGroups]
+  | cons k ks ih =>
+    cases k with
+    | tag t => simpa [directGroups, anchoredOf] using ih
+    | group s kids =>
+      cases hf : (directTags kids).find? fun t => (temporalKeys.map fold).contains (fold (shortBase env t)) with
+      | none =>
+        have : (directTags kids).any (fun t => (temporalKeys.map fold).contains (fold (shortBase env t))) = false := by
+          rw [List.find?_eq_none] at hf
+          simpa [List.any_eq_false] using hf
+        simp only [directGroups, List.filterMap_cons, List.flatMap_cons, anchoredOf, hf, Option.map_none, this,
+          Bool.false_eq_true, ↓reduceIte, List.nil_append]
+        exact ih
+      | some top =>
+        have : (directTags kids).any (fun t => (temporalKeys.map fold).contains (fold (shortBase env t))) = true := by
+          rw [List.any_eq_true]
+          exact ⟨top, List.mem_of_find?_eq_some hf, by simpa using List.find?_some hf⟩
+        simp only [directGroups, List.filterMap_cons, List.flatMap_cons, anchoredOf, hf, Option.map_some, this,
+          ↓reduceIte]
+        simp
+
+theorem noTemporal_sim {env : Env} {R : RTag → RTag → Prop} (hR : ∀ t t', R t t' → Core t t') {l l' : List RNode}
+    (h : ForestSim R l l') (hn : NoTemporal env l) : NoTemporal env l' := by
+  rw [noTemporal_iff] at hn ⊢
+  have := (h.flatMap_perm (anchoredOf env) (anchoredOf env) (by
+    intro k _ k' _ hk
+    cases k with
+    | tag t => cases k' <;> simp_all [NodeSim, anchoredOf]
+    | group s ks =>
+      cases k' with
+      | tag t => simp [NodeSim] at hk
+      | group s' ks' =>
+        have hf : ForestSim R ks ks' := by simpa [NodeSim, ForestSim] using hk
+        simp only [anchoredOf]
+        rw [hf.directTags_any (fun t => (temporalKeys.map fold).contains (fold (shortBase env t)))
+          (fun t => (temporalKeys.map fold).contains (fold (shortBase env t)))
+          (fun t t' htt => by rw [(hR t t' htt).shortBase])])).length_eq
+  rw [hn] at this
+  exact List.length_eq_zero_iff.mp this.symm
+
+/-! ### the tag relation of the rewrites: the same tag, or a respelled one -/
+
+def Rewritten (env : Env) (t t' : RTag) : Prop := SameTag t t' ∨ Respelled env t t'
+
+theorem rewritten_rel (env : Env) : TagRel env (Rewritten env) where
+  core := fun _ _ h => h.elim SameTag.core (·.core)
+  slash := fun t t' h => h.elim ((sameTag_rel env).slash t t') (·.slash)
+  chars := fun t t' h => h.elim ((sameTag_rel env).chars t t') (·.chars)
+  recanon := fun t t' h => h.elim (fun g => Or.inl (canon_same env g))
+    (fun g => Or.inr (by rw [g.stable.1, g.stable.2]; exact g))
+  lookup := fun t t' h => (errCodes_of_sigs (canon_core_sigs env (h.elim SameTag.core (·.core)))).symm
+
+/-- tag texts: the same text, or another spelling of the same tag with the same forbidden characters -/
+def RespellText (env : Env) (w w' : Str) : Prop :=
+  w' = w ∨ ((∀ sp sp', Respelled env (mkTagW env w sp) (mkTagW env w' sp')) ∧ (charCodes env w).Perm (charCodes env w'))
+
+theorem respellText_tag (env : Env) (w w' : Str) (sp sp' : Nat × Nat) (h : RespellText env w w') :
+    Rewritten env (mkTagW env w sp) (mkTagW env w' sp') := by
+  rcases h with rfl | h
+  · exact Or.inl (mkTagW_same env _ sp sp')
+  · exact Or.inr (h.1 sp sp')
+
+theorem respellText_chars (env : Env) (w w' : Str) (h : RespellText env w w') :
+    (charCodes env w).Perm (charCodes env w') := by
+  rcases h with rfl | h
+  · exact List.Perm.refl _
+  · exact h.2
+
+/-- two spellings that the look-up resolves to the same entry with the same remainder give `Core` tags (C03
+provides the premise: `C04.spelling_same_node`, `C03.forms_roundtrip_remainder`) -/
+theorem mkTagW_core (env : Env) (w w' : Str) (sp sp' : Nat × Nat)
+    (hns : Schema.namespaceOf w = env.ns) (hns' : Schema.namespaceOf w' = env.ns) (i : Nat) (rem : Str)
+    (hf : Schema.find env.vocab fold (w.drop env.ns.length) = .found i rem)
+    (hf' : Schema.find env.vocab fold (w'.drop env.ns.length) = .found i rem) :
+    Core (mkTagW env w sp) (mkTagW env w' sp') := by
+  unfold mkTagW canon
+  simp only [strOf, hns, hns', bne_self_eq_false, Bool.false_eq_true, ↓reduceIte, hf, hf']
+  exact ⟨rfl, rfl, rfl, fun h => by simp at h⟩
+
+end HedVerif.Rewrite
+
+/-! ## The property theorems for the whole validator -/
+namespace HedVerif.C04
+open HedVerif HedVerif.Validate HedVerif.Rewrite Tok Tree
+
+/-- what is assumed of every text the rewrites pass through: its tags are admissible for the duplicate rule
+(C02/C03 facts, `Dup.Adm`), and no top-level group is anchored by Onset/Offset/Inset (the one rule whose
+invariance is a premise of `Rewrite.validate_sim` instead of a theorem) -/
+def TextOK (env : Env) (P : Dup.Tag → Prop) (s : Str) : Prop :=
+  TagsOK env P s ∧ NoTemporal env ((parse env s).final env)
+
+/-- **Spacing, parse level, every text** (`Tok.split`, `Tree.construct`): same tag texts, same tree up to spans. -/
+theorem spacing_invariant_text {s s' : Str} (h : Blank s s') :
+    tagTexts s = tagTexts s' ∧ absList s (construct s) = absList s' (construct s') :=
+  Rewrite.spacing_invariant_text h
+
+/-- the onset premise from `TextOK` -/
+theorem onset_premise {env : Env} {P : Dup.Tag → Prop} {s s' : Str} (h : TextOK env P s) (h' : TextOK env P s') :
+    (errCodes (onsetIssues env ((parse env s).final env))).Perm (errCodes (onsetIssues env ((parse env s').final env))) := by
+  rw [onsetIssues_nil h.2, onsetIssues_nil h'.2]
+
+/-- **Spacing, whole validator** (all rules; the Onset/Offset/Inset group rule under `TextOK`). -/
+theorem spacing_invariant_full_partial (env : Env) (hs : env.var.sortCanonical = true) (he : env.var.eqFold = true)
+    {P : Dup.Tag → Prop} (hP : Dup.Adm P) (hD : DefsOK env P) {s s' : Str} (h : Blank s s')
+    (hok : TextOK env P s) (hok' : TextOK env P s') :
+    (errCodes (validate env true s)).Perm (errCodes (validate env true s')) := by
+  refine validate_sim (sameTag_rel env) (Rt := Eq) (fun w w' sp sp' hw => by subst hw; exact mkTagW_same env _ sp sp')
+    hs he hP hD s s' ?_ (List.Perm.of_eq (textIssues_blankRel env h)) hok.1 hok'.1 (onset_premise hok hok')
+  rw [(Rewrite.spacing_invariant_text h).2]
+  exact aForestSim_refl _
+
+/-- **Order and spelling, whole validator, on printed annotations.** For forests `T`, `T'` of tags and groups
+with the same shape up to the order of the members of every group (and of the top level), whose tag texts are
+equal or respellings of each other: validating the two printed texts gives the same multiset of error codes. -/
+theorem rewrite_printed_invariant_partial (env : Env) (hs : env.var.sortCanonical = true) (he : env.var.eqFold = true)
+    {P : Dup.Tag → Prop} (hP : Dup.Adm P) (hD : DefsOK env P) {T T' : List ATree}
+    (hT : SolidList env.cd T) (hT' : SolidList env.cd T') (h : AForestSim (RespellText env) T T')
+    (hok : TextOK env P (renderList T)) (hok' : TextOK env P (renderList T')) :
+    (errCodes (validate env true (renderList T))).Perm (errCodes (validate env true (renderList T'))) := by
+  refine validate_sim (rewritten_rel env) (Rt := RespellText env) (fun w w' sp sp' hw => respellText_tag env w w' sp sp' hw)
+    hs he hP hD _ _ ?_ (textIssues_render env hT hT' h (respellText_chars env)) hok.1 hok'.1 (onset_premise hok hok')
+  rw [(C02.roundtrip_original T (solidList_valid _ T hT)).2.1, (C02.roundtrip_original T' (solidList_valid _ T' hT')).2.1]
+  exact h
+
+mutual
+theorem aNodeSim_mono {Rt Rt' : Str → Str → Prop} (hm : ∀ w w', Rt w w' → Rt' w w') :
+    ∀ (k k' : ATree), ANodeSim Rt k k' → ANodeSim Rt' k k'
+  | .tag _, .tag _, h => by simpa [ANodeSim] using hm _ _ (by simpa [ANodeSim] using h)
+  | .tag _, .group _, h => by simp [ANodeSim] at h
+  | .group _, .tag _, h => by simp [ANodeSim] at h
+  | .group ks, .group ks', h => by
+    obtain ⟨m, hmm, hp⟩ := h
+    exact ⟨m, aPointSim_mono hm ks m hmm, hp⟩
+theorem aPointSim_mono {Rt Rt' : Str → Str → Prop} (hm : ∀ w w', Rt w w' → Rt' w w') :
+    ∀ (l m : List ATree), APointSim Rt l m → APointSim Rt' l m
+  | [], [], _ => by simp [APointSim]
+  | k :: ks, k' :: ms, h => ⟨aNodeSim_mono hm k k' h.1, aPointSim_mono hm ks ms h.2⟩
+  | [], _ :: _, h => by simp [APointSim] at h
+  | _ :: _, [], h => by simp [APointSim] at h
+end
+
+/-- **Order, whole validator**: permuting the members of any group or of the top level, at any depth. -/
+theorem order_invariant_full_partial (env : Env) (hs : env.var.sortCanonical = true) (he : env.var.eqFold = true)
+    {P : Dup.Tag → Prop} (hP : Dup.Adm P) (hD : DefsOK env P) {T T' : List ATree}
+    (hT : SolidList env.cd T) (hT' : SolidList env.cd T') (h : AForestSim Eq T T')
+    (hok : TextOK env P (renderList T)) (hok' : TextOK env P (renderList T')) :
+    (errCodes (validate env true (renderList T))).Perm (errCodes (validate env true (renderList T'))) := by
+  obtain ⟨m, hm, hp⟩ := h
+  exact rewrite_printed_invariant_partial env hs he hP hD hT hT'
+    ⟨m, aPointSim_mono (fun w w' hw => Or.inl hw.symm) T m hm, hp⟩ hok hok'
+
+/-- **Spelling, whole validator**: every tag text replaced by a respelling (`RespellText`: the two texts resolve
+to tags the schema-based rules cannot tell apart — same namespace, entry and value, C03 —, the slash and
+character rules say the same about both, and both have the same forbidden characters). -/
+theorem spelling_invariant_full_partial (env : Env) (hs : env.var.sortCanonical = true) (he : env.var.eqFold = true)
+    {P : Dup.Tag → Prop} (hP : Dup.Adm P) (hD : DefsOK env P) {T T' : List ATree}
+    (hT : SolidList env.cd T) (hT' : SolidList env.cd T') (h : APointSim (RespellText env) T T')
+    (hok : TextOK env P (renderList T)) (hok' : TextOK env P (renderList T')) :
+    (errCodes (validate env true (renderList T))).Perm (errCodes (validate env true (renderList T'))) :=
+  rewrite_printed_invariant_partial env hs he hP hD hT hT' ⟨T', h, List.Perm.refl _⟩ hok hok'
+
+/-- **The rewrites of C04**, on texts: blanks next to delimiters or at the ends (any text), and — on printed
+annotations — respelling tags and permuting the members of groups; composed freely. -/
+inductive Rewrite (env : Env) (Ok : Str → Prop) : Str → Str → Prop
+  | refl (s : Str) : Rewrite env Ok s s
+  | blank {s s' : Str} : Blank s s' → Ok s → Ok s' → Rewrite env Ok s s'
+  | printed {T T' : List ATree} : SolidList env.cd T → SolidList env.cd T' → AForestSim (RespellText env) T T' →
+      Ok (renderList T) → Ok (renderList T') → Rewrite env Ok (renderList T) (renderList T')
+  | trans {a b c : Str} : Rewrite env Ok a b → Rewrite env Ok b c → Rewrite env Ok a c
+
+/-- **C04 for the whole validator** (`HedValidator.validate` with placeholders allowed, the duplicate rule after
+the C04 fixes): any composition of the rewrites leaves the multiset of error codes unchanged. -/
+theorem rewrite_invariant_partial (env : Env) (hs : env.var.sortCanonical = true) (he : env.var.eqFold = true)
+    {P : Dup.Tag → Prop} (hP : Dup.Adm P) (hD : DefsOK env P) {Ok : Str → Prop} (hOk : ∀ s, Ok s → TextOK env P s)
+    {s s' : Str} (h : Rewrite env Ok s s') :
+    (errCodes (validate env true s)).Perm (errCodes (validate env true s')) := by
+  induction h with
+  | refl => exact List.Perm.refl _
+  | blank hb o o' => exact spacing_invariant_full_partial env hs he hP hD hb (hOk _ o) (hOk _ o')
+  | printed hT hT' hA o o' => exact rewrite_printed_invariant_partial env hs he hP hD hT hT' hA (hOk _ o) (hOk _ o')
+  | trans _ _ ih1 ih2 => exact ih1.trans ih2
+
+/-- **Model equivalence**: the duplicate rule inside the full validator model is the one of `Model/Dup.lean`
+(for which `order_invariant`, `repeated_anywhere`, `no_false_repeat` are proved). -/
+theorem dup_rule_is_dup_model (env : Env) (hs : env.var.sortCanonical = true) (he : env.var.eqFold = true)
+    {P : Dup.Tag → Prop} (hP : Dup.Adm P) (root : List RNode) (hall : ∀ x ∈ Dup.tagsL (toDupL env root), P x) :
+    errCodes (dupIssues env root) = (Dup.issues (toDupL env root)).map (fun i => dupCode i.kind) :=
+  dupIssues_eq env hs he hP root hall
+
+end HedVerif.C04
+
+/-! ### the hypotheses can be met -/
+namespace HedVerif.C04
+open HedVerif HedVerif.Validate HedVerif.Rewrite Tok Tree
+
+/-- a small environment: the duplicate rule after the C04 fixes, an empty vocabulary, no definitions -/
+def envEx : Env :=
+  { var := { sortCanonical := true, eqFold := true, emptyDupSafe := true }, vocab := Schema.Vocab.build fold [],
+    ns := [], attrs := #[], mods := [], unitClasses := #[], modern := true, cd := {} }
+
+theorem defsOK_ex : DefsOK envEx ShortClean := by
+  intro t rest h
+  simp [defExpansion, defLookup, envEx] at h
+
+theorem textOK_ab : TextOK envEx ShortClean ['a', ',', 'b'] := by
+  refine ⟨⟨?_, ?_⟩, ?_⟩
+  · have : (parse envEx ['a', ',', 'b']).root0 =
+        [.tag ⟨(0,1), ['a'], [], none, []⟩, .tag ⟨(2,3), ['b'], [], none, []⟩] := by rfl
+    rw [this]
+    simp [tagsList, tagsNode, toDupTag, strOf, Validate.fold, ShortClean, Dup.CleanStr]
+  · have : (parse envEx ['a', ',', 'b']).root1 =
+        [.tag ⟨(0,1), ['a'], [], none, []⟩, .tag ⟨(2,3), ['b'], [], none, []⟩] := by rfl
+    rw [this]
+    simp [tagsList, tagsNode, toDupTag, strOf, Validate.fold, ShortClean, Dup.CleanStr]
+  · show topLevelAnchored envEx _ _ = []
+    rfl
+
+theorem textOK_a_b : TextOK envEx ShortClean ['a', ',', ' ', 'b'] := by
+  refine ⟨⟨?_, ?_⟩, ?_⟩
+  · have : (parse envEx ['a', ',', ' ', 'b']).root0 =
+        [.tag ⟨(0,1), ['a'], [], none, []⟩, .tag ⟨(3,4), ['b'], [], none, []⟩] := by rfl
+    rw [this]
+    simp [tagsList, tagsNode, toDupTag, strOf, Validate.fold, ShortClean, Dup.CleanStr]
+  · have : (parse envEx ['a', ',', ' ', 'b']).root1 =
+        [.tag ⟨(0,1), ['a'], [], none, []⟩, .tag ⟨(3,4), ['b'], [], none, []⟩] := by rfl
+    rw [this]
+    simp [tagsList, tagsNode, toDupTag, strOf, Validate.fold, ShortClean, Dup.CleanStr]
+  · show topLevelAnchored envEx _ _ = []
+    rfl
+
+theorem textOK_ba : TextOK envEx ShortClean ['b', ',', 'a'] := by
+  refine ⟨⟨?_, ?_⟩, ?_⟩
+  · have : (parse envEx ['b', ',', 'a']).root0 =
+        [.tag ⟨(0,1), ['b'], [], none, []⟩, .tag ⟨(2,3), ['a'], [], none, []⟩] := by rfl
+    rw [this]
+    simp [tagsList, tagsNode, toDupTag, strOf, Validate.fold, ShortClean, Dup.CleanStr]
+  · have : (parse envEx ['b', ',', 'a']).root1 =
+        [.tag ⟨(0,1), ['b'], [], none, []⟩, .tag ⟨(2,3), ['a'], [], none, []⟩] := by rfl
+    rw [this]
+    simp [tagsList, tagsNode, toDupTag, strOf, Validate.fold, ShortClean, Dup.CleanStr]
+  · show topLevelAnchored envEx _ _ = []
+    rfl
+
+/-- `a,b` and `a, b` -/
+example : (errCodes (validate envEx true ['a', ',', 'b'])).Perm (errCodes (validate envEx true ['a', ',', ' ', 'b'])) :=
+  spacing_invariant_full_partial envEx rfl rfl shortClean_adm defsOK_ex
+    (Blank.ins (BlankStep.after ['a'] ['b'] ',' rfl)) textOK_ab textOK_a_b
+
+/-- `a,b` and `b,a` -/
+example : (errCodes (validate envEx true ['a', ',', 'b'])).Perm (errCodes (validate envEx true ['b', ',', 'a'])) := by
+  have hT : SolidList envEx.cd [ATree.tag ['a'], ATree.tag ['b']] := by
+    simp [SolidList, SolidNode, SolidText, ValidText, isDelim, Validate.isSpace, Validate.isAscii, envEx]
+  have hT' : SolidList envEx.cd [ATree.tag ['b'], ATree.tag ['a']] := by
+    simp [SolidList, SolidNode, SolidText, ValidText, isDelim, Validate.isSpace, Validate.isAscii, envEx]
+  have hsim : AForestSim Eq [ATree.tag ['a'], ATree.tag ['b']] [ATree.tag ['b'], ATree.tag ['a']] :=
+    ⟨_, aPointSim_refl _, List.Perm.swap _ _ _⟩
+  exact order_invariant_full_partial envEx rfl rfl shortClean_adm defsOK_ex hT hT' hsim textOK_ab textOK_ba
 
 end HedVerif.C04
